@@ -277,6 +277,59 @@ Section Refinement.
     rewrite (machine_refines _ _ _ _ E Hne fuel Hle). auto.
   Qed.
 
+  (* ================================================================ 2b. more depth does not change a finished big-step run *)
+
+  Lemma kids_ext : forall rec rec' stack cs,
+    (forall c, fst (rec c) <> OutOfFuel -> rec' c = rec c) ->
+    fst (kids rec stack cs) <> inr OutOfFuel -> kids rec' stack cs = kids rec stack cs.
+  Proof.
+    intros rec rec' stack cs Hrec. induction cs as [|c cs IH]; simpl; intros H; auto.
+    destruct (flagged c stack).
+    - destruct (ignore_cycles o); auto. simpl in H. rewrite IH; auto.
+      intros E. rewrite E in H. apply H. reflexivity.
+    - destruct (rec c) as [r n1] eqn:Hr. destruct r as [t|e|].
+      + rewrite (Hrec c) by (rewrite Hr; discriminate). rewrite Hr. simpl in H. rewrite IH; auto.
+        intros E. rewrite E in H. apply H. reflexivity.
+      + rewrite (Hrec c) by (rewrite Hr; discriminate). rewrite Hr. reflexivity.
+      + exfalso. apply H. reflexivity.
+  Qed.
+
+  Lemma bigs_mono_S : forall d anc it, fst (bigs d anc it) <> OutOfFuel -> bigs (S d) anc it = bigs d anc it.
+  Proof.
+    induction d as [|d IH]; intros anc it H; [exfalso; apply H; reflexivity|].
+    change (bigs (S (S d)) anc it) with
+      (let rn := kids (bigs (S d) (it :: anc)) (it :: anc) (expand it) in
+       match fst rn with
+       | inl ts => (match build it ts with BOk t => Built t | BErr e => Raised e end, S (snd rn))
+       | inr r => (r, snd rn)
+       end).
+    change (bigs (S d) anc it) with
+      (let rn := kids (bigs d (it :: anc)) (it :: anc) (expand it) in
+       match fst rn with
+       | inl ts => (match build it ts with BOk t => Built t | BErr e => Raised e end, S (snd rn))
+       | inr r => (r, snd rn)
+       end) in H |- *.
+    cbv zeta in *. rewrite (kids_ext (bigs d (it :: anc)) (bigs (S d) (it :: anc))); auto.
+    intros E. rewrite E in H. apply H. reflexivity.
+  Qed.
+
+  Lemma bigs_mono : forall d d' anc it, d <= d' -> fst (bigs d anc it) <> OutOfFuel -> bigs d' anc it = bigs d anc it.
+  Proof.
+    intros d d' anc it Hle H. induction Hle; auto. rewrite bigs_mono_S; auto. rewrite IHHle. exact H.
+  Qed.
+
+  (* a big-step run that finishes at some depth <= big_depth is what the machine returns with exactly
+     fuel_bound steps of fuel (the fuel the correspondence check gives the model) *)
+  Lemma run_at_fuel_bound : forall d root r n, d <= big_depth g ->
+    bigs d [] (IId root) = (r, n) -> r <> OutOfFuel ->
+    run_builder b o g (fuel_bound b o g root) root = r.
+  Proof.
+    intros d root r n Hle H Hr.
+    assert (E : bigs (big_depth g) [] (IId root) = (r, n)).
+    { rewrite (bigs_mono d); auto. rewrite H. exact Hr. }
+    unfold fuel_bound. rewrite E. simpl. eapply machine_refines; eauto.
+  Qed.
+
 End Refinement.
 
 (* ================================================================== 3. generic list facts *)
@@ -397,6 +450,140 @@ Section Acyclic.
     intros root [d [v H]] [c [e [Hrc [Hce Hec]]]].
     destruct (reach_unfold _ _ Hrc _ _ H) as [d' [v' [_ Hc]]].
     exact (no_self_reach _ _ _ _ Hc Hce Hec).
+  Qed.
+
+  (* ---------------------------------------------------------------- unfolding depth: |g|+1 always suffices *)
+
+  (* one level of `unfold`, the recursive calls abstracted *)
+  Definition unfold_step (rec : Z -> option pyval) (i : Z) : option pyval :=
+    match lookup g i with
+    | None => None
+    | Some (PScalar s) => Some (VScalar s)
+    | Some (PList l) | Some (PTuple l) => option_map VList (map_opt rec l)
+    | Some (PSet l) => option_map VMSet (map_opt rec l)
+    | Some (PDict kvs) =>
+        option_map VDict
+          (map_opt (fun kv => match rec (fst kv), rec (snd kv) with
+                              | Some k, Some v => Some (k, v) | _, _ => None end) kvs)
+    | Some (PObj cls fs) =>
+        option_map (fun vs => VDict [(VScalar (SStr cls), VDict vs)])
+          (map_opt (fun f => match rec (snd f) with
+                             | Some v => Some (VScalar (SStr (fst f)), v) | None => None end) fs)
+    end.
+
+  Lemma unfold_S : forall d i, unfold (S d) g i = unfold_step (unfold d g) i.
+  Proof. reflexivity. Qed.
+
+  Lemma map_opt_mono_in : forall {A B} (f f' : A -> option B) l ys,
+    (forall x y, In x l -> f x = Some y -> f' x = Some y) -> map_opt f l = Some ys -> map_opt f' l = Some ys.
+  Proof.
+    induction l as [|a l IH]; simpl; intros ys H E; auto.
+    destruct (f a) eqn:Ea; try discriminate. destruct (map_opt f l) eqn:El; try discriminate.
+    rewrite (H a b (or_introl eq_refl) Ea). rewrite (IH l0); auto.
+  Qed.
+
+  Lemma unfold_step_mono : forall rec rec' : Z -> option pyval,
+    (forall j w, rec j = Some w -> rec' j = Some w) ->
+    forall i v, unfold_step rec i = Some v -> unfold_step rec' i = Some v.
+  Proof.
+    intros rec rec' Hm i v. unfold unfold_step. destruct (lookup g i) as [[s|l|l|l|kvs|cls fs]|]; auto.
+    - destruct (map_opt rec l) eqn:E; try discriminate. rewrite (map_opt_mono_in rec rec' l l0); auto.
+    - destruct (map_opt rec l) eqn:E; try discriminate. rewrite (map_opt_mono_in rec rec' l l0); auto.
+    - destruct (map_opt rec l) eqn:E; try discriminate. rewrite (map_opt_mono_in rec rec' l l0); auto.
+    - match goal with |- option_map _ (map_opt ?f kvs) = _ -> _ => destruct (map_opt f kvs) eqn:E end; try discriminate.
+      intros H. erewrite map_opt_mono_in; [exact H| |exact E].
+      intros [k w] y _. simpl. destruct (rec k) eqn:Ek; try discriminate. destruct (rec w) eqn:Ew; try discriminate.
+      rewrite (Hm _ _ Ek), (Hm _ _ Ew). auto.
+    - match goal with |- option_map _ (map_opt ?f fs) = _ -> _ => destruct (map_opt f fs) eqn:E end; try discriminate.
+      intros H. erewrite map_opt_mono_in; [exact H| |exact E].
+      intros [a w] y _. simpl. destruct (rec w) eqn:Ew; try discriminate. rewrite (Hm _ _ Ew). auto.
+  Qed.
+
+  Lemma unfold_mono_S : forall d i v, unfold d g i = Some v -> unfold (S d) g i = Some v.
+  Proof.
+    induction d as [|d IH]; intros i v H; [discriminate|].
+    rewrite unfold_S in *. eapply unfold_step_mono; [|exact H]. exact IH.
+  Qed.
+
+  Lemma unfold_mono : forall d d' i v, d <= d' -> unfold d g i = Some v -> unfold d' g i = Some v.
+  Proof.
+    intros d d' i v Hle H. induction Hle; auto. apply unfold_mono_S. auto.
+  Qed.
+
+  Lemma map_opt_ex_in : forall {A B} (f : A -> option B) l,
+    (forall x, In x l -> exists y, f x = Some y) -> exists ys, map_opt f l = Some ys.
+  Proof.
+    induction l as [|a l IH]; simpl; intros H; eauto.
+    destruct (H a (or_introl eq_refl)) as [y Hy]. rewrite Hy.
+    destruct IH as [ys Hys]; [intros; apply H; auto|]. rewrite Hys. eauto.
+  Qed.
+
+  Lemma unfold_step_ex : forall (rec : Z -> option pyval) i nd, lookup g i = Some nd ->
+    (forall j, In j (succs nd) -> exists w, rec j = Some w) -> exists v, unfold_step rec i = Some v.
+  Proof.
+    intros rec i nd Hl H. unfold unfold_step. rewrite Hl.
+    destruct nd as [s|l|l|l|kvs|cls fs]; simpl in H; eauto.
+    - destruct (map_opt_ex_in rec l H) as [ys ->]. simpl. eauto.
+    - destruct (map_opt_ex_in rec l H) as [ys ->]. simpl. eauto.
+    - destruct (map_opt_ex_in rec l H) as [ys ->]. simpl. eauto.
+    - match goal with |- exists v, option_map _ (map_opt ?f kvs) = _ => destruct (map_opt_ex_in f kvs) as [ys ->] end;
+        [|simpl; eauto].
+      intros [k w] Hin. simpl.
+      destruct (H k) as [yk ->]; [apply in_or_app; left; apply in_map_iff; exists (k, w); auto|].
+      destruct (H w) as [yw ->]; [apply in_or_app; right; apply in_map_iff; exists (k, w); auto|]. eauto.
+    - match goal with |- exists v, option_map _ (map_opt ?f fs) = _ => destruct (map_opt_ex_in f fs) as [ys ->] end;
+        [|simpl; eauto].
+      intros [a w] Hin. simpl.
+      destruct (H w) as [yw ->]; [apply in_map_iff; exists (a, w); auto|]. eauto.
+  Qed.
+
+  Lemma reach_trans : forall a c e, reach g a c -> reach g c e -> reach g a e.
+  Proof. induction 1; auto. intros. eapply reach_step; eauto. Qed.
+
+  Lemma unfold_lookup : forall d i v, unfold d g i = Some v -> exists nd, lookup g i = Some nd.
+  Proof.
+    intros [|d] i v H; [discriminate|]. simpl in H. destruct (lookup g i); eauto. discriminate.
+  Qed.
+
+  (* pigeonhole: below distinct ancestors that all reach i, the unfolding of an acyclic i needs no more
+     levels than there are graph entries off the ancestor path *)
+  Lemma unfold_bound_gen : forall m i anc,
+    acyclic g i ->
+    (forall a, In a anc -> exists c, edge g a c /\ reach g c i) ->
+    unvisited g (IId i :: map IId anc) <= m ->
+    exists v, unfold (S m) g i = Some v.
+  Proof.
+    induction m as [|m IH]; intros i anc [d [v Hv]] Hanc Hun;
+      destruct (unfold_lookup _ _ _ Hv) as [nd Hl]; rewrite unfold_S; apply (unfold_step_ex _ _ _ Hl); intros j Hj.
+    all: assert (He : edge g i j) by (exists nd; auto).
+    all: assert (Hfr : fresh (IId j) (IId i :: map IId anc) = true).
+    1, 3: unfold fresh; simpl; apply negb_true_iff; apply orb_false_intro;
+      [apply Z.eqb_neq; intros E; rewrite E in *; exact (no_self_reach _ _ _ _ Hv He (reach_refl _ _))
+      |apply existsb_false_forall; intros x Hx; apply in_map_iff in Hx; destruct Hx as [a [<- Ha]]; simpl;
+       apply Z.eqb_neq; intros E; rewrite E in *; destruct (Hanc _ Ha) as [c [Hjc Hci]];
+       apply (no_self_reach _ _ _ _ Hv He); eapply reach_step; eauto].
+    all: destruct d as [|d]; [discriminate|]; destruct (unfold_edge _ _ _ _ Hv He) as [vj Hvj];
+      destruct (unfold_lookup _ _ _ Hvj) as [ndj Hlj];
+      pose proof (unvisited_lt g j ndj _ Hlj Hfr) as Hlt.
+    - lia.
+    - apply (IH j (i :: anc)); [exists d, vj; auto| |simpl; lia].
+      intros a [<-|Ha]; [exists j; split; auto; apply reach_refl|].
+      destruct (Hanc _ Ha) as [c [Hac Hci]]. exists c. split; auto.
+      eapply reach_trans; [exact Hci|]. eapply reach_step; [exact He|apply reach_refl].
+  Qed.
+
+  (* the depth used by the executable statement (BuilderSpec.unfold_depth) is complete *)
+  Theorem unfold_depth_complete : forall d root v,
+    unfold d g root = Some v -> unfold (unfold_depth g) g root = Some v.
+  Proof.
+    intros d root v H.
+    destruct (unfold_bound_gen (unvisited g [IId root]) root []) as [w Hw];
+      [exists d, v; auto|intros a []|simpl; lia|].
+    assert (Hw' : unfold (unfold_depth g) g root = Some w).
+    { eapply unfold_mono; [|exact Hw]. unfold unfold_depth. pose proof (unvisited_le g [IId root]). lia. }
+    pose proof (unfold_mono _ (Nat.max d (unfold_depth g)) _ _ (Nat.le_max_l _ _) H) as E1.
+    pose proof (unfold_mono _ (Nat.max d (unfold_depth g)) _ _ (Nat.le_max_r _ _) Hw') as E2.
+    congruence.
   Qed.
 
 End Acyclic.
@@ -561,6 +748,57 @@ Proof.
   intros [|b|z|r [z|]|x|x]; unfold scalar_pyeq; simpl; auto using Z.eqb_refl, String.eqb_refl.
 Qed.
 
+(* ------------------------------------------------------------------ a plain value is equal to itself *)
+
+Section ValInd.
+  Variable P : pyval -> Prop.
+  Hypothesis Hscalar : forall s, P (VScalar s).
+  Hypothesis Hleafnode : forall s, P (VLeafNode s).
+  Hypothesis Hidhash : forall d i, P (VIdHash d i).
+  Hypothesis Hvlist : forall l, Forall P l -> P (VList l).
+  Hypothesis Hvmset : forall l, Forall P l -> P (VMSet l).
+  Hypothesis Hvdict : forall kvs, Forall (fun kv => P (fst kv) /\ P (snd kv)) kvs -> P (VDict kvs).
+
+  Fixpoint pyval_ind' (v : pyval) : P v :=
+    match v with
+    | VScalar s => Hscalar s
+    | VLeafNode s => Hleafnode s
+    | VIdHash d i => Hidhash d i
+    | VList l => Hvlist l ((fix go (l : list pyval) : Forall P l :=
+                              match l with [] => Forall_nil _ | x :: xs => Forall_cons _ (pyval_ind' x) (go xs) end) l)
+    | VMSet l => Hvmset l ((fix go (l : list pyval) : Forall P l :=
+                              match l with [] => Forall_nil _ | x :: xs => Forall_cons _ (pyval_ind' x) (go xs) end) l)
+    | VDict kvs => Hvdict kvs ((fix go (l : list (pyval * pyval)) : Forall (fun kv => P (fst kv) /\ P (snd kv)) l :=
+                              match l with [] => Forall_nil _
+                              | x :: xs => Forall_cons _ (conj (pyval_ind' (fst x)) (pyval_ind' (snd x))) (go xs) end) kvs)
+    end.
+End ValInd.
+
+Lemma scalar_eqb_refl : forall s, scalar_eqb s s = true.
+Proof.
+  intros [|b|z|r [z|]|x|x]; simpl; auto using Z.eqb_refl, String.eqb_refl, Bool.eqb_reflx.
+  - rewrite String.eqb_refl, Z.eqb_refl. reflexivity.
+  - rewrite String.eqb_refl. reflexivity.
+Qed.
+
+(* the executable comparison used by holds_C18 is reflexive: lists in order, multisets and dicts matched
+   element by element *)
+Lemma val_eqb_refl : forall seq, (forall s, seq s s = true) -> forall v, val_eqb seq v v = true.
+Proof.
+  intros seq Hseq.
+  induction v as [s|s|d i|l IH|l IH|kvs IH] using pyval_ind'.
+  - simpl. apply Hseq.
+  - simpl. apply Hseq.
+  - simpl. rewrite Nat.eqb_refl, Z.eqb_refl. reflexivity.
+  - simpl. induction IH as [|x xs Hx HF IHl]; auto. rewrite Hx. simpl. auto.
+  - simpl. induction IH as [|x xs Hx HF IHl]; auto. simpl. rewrite Hx. auto.
+  - simpl. induction IH as [|[k v] xs [Hk Hv] HF IHl]; auto. simpl in *. rewrite Hk, Hv. simpl. auto.
+Qed.
+
+(* `norm read = original` (what the faithfulness theorem proves) makes the executable clause ClValue true *)
+Lemma same_value_of_norm : forall read original, norm read = original -> same_value read original = true.
+Proof. intros read original <-. unfold same_value. apply val_eqb_refl. exact scalar_eqb_refl. Qed.
+
 (* every placeholder wraps its object once (what Builder.build_tree creates and copy() now preserves) *)
 Fixpoint cyc0 (t : tree) : bool :=
   match t with
@@ -612,15 +850,217 @@ Proof.
   apply andb_prop in Ha. apply andb_prop in Hc. destruct Ha as [-> Ha]. destruct Hc as [-> Hc]. simpl. auto.
 Qed.
 
+(* ================================================================== 5c. trees of hashable values: leaves and multisets of such *)
+
+Fixpoint htree (t : tree) : bool :=
+  match t with
+  | TLeaf _ _ => true
+  | TMSet l => forallb htree l
+  | _ => false
+  end.
+
+Fixpoint hval (t : tree) : pyval :=
+  match t with
+  | TLeaf _ s => VScalar s
+  | TMSet l => VMSet (map hval l)
+  | _ => VScalar SNone
+  end.
+
+Lemma htree_hashable : forall t, htree t = true -> hashable (hval t) = true.
+Proof. destruct t; simpl; try discriminate; auto. Qed.
+
+Lemma htree_to_obj : forall t, htree t = true -> to_obj t = ROk (hval t).
+Proof.
+  induction t as [k s|d i|l IH|l IH|a kvs IH|a kvs IH|n m IHn IHm] using tree_ind'; simpl; intros H;
+    try discriminate; auto.
+  assert (E : all_ok (map to_obj l) = ROk (map hval l) /\ forallb hashable (map hval l) = true).
+  { induction IH as [|x xs Hx HF IHl]; simpl; auto. simpl in H. apply andb_prop in H. destruct H as [H1 H2].
+    destruct (IHl H2) as [E1 E2]. rewrite (Hx H1), E1, E2, (htree_hashable _ H1). auto. }
+  destruct E as [E1 E2]. rewrite E1, E2. reflexivity.
+Qed.
+
+Lemma htree_norm : forall t, htree t = true -> norm (hval t) = hval t.
+Proof.
+  induction t as [k s|d i|l IH|l IH|a kvs IH|a kvs IH|n m IHn IHm] using tree_ind'; simpl; intros H;
+    try discriminate; auto.
+  f_equal. induction IH as [|x xs Hx HF IHl]; simpl; auto. simpl in H. apply andb_prop in H. destruct H as [H1 H2].
+  rewrite (Hx H1), (IHl H2). reflexivity.
+Qed.
+
+Lemma htree_tov : forall t, htree t = true -> tov t = hval t.
+Proof. intros t H. unfold tov. rewrite (htree_to_obj _ H). reflexivity. Qed.
+
+Lemma remove_first_In : forall {A} (p : A -> bool) l r, remove_first p l = Some r -> forall y, In y r -> In y l.
+Proof.
+  induction l as [|x l IH]; simpl; intros r H y Hy; try discriminate.
+  destruct (p x).
+  - inversion H; subst. auto.
+  - destruct (remove_first p l) eqn:E; try discriminate. inversion H; subst.
+    destruct Hy as [->|Hy]; eauto.
+Qed.
+
+Lemma remove_first_map : forall {A B} (f : A -> B) (p : A -> bool) (q : B -> bool) l,
+  (forall y, In y l -> p y = q (f y)) ->
+  remove_first q (map f l) = option_map (map f) (remove_first p l).
+Proof.
+  induction l as [|x l IH]; simpl; intros H; auto.
+  rewrite <- (H x (or_introl eq_refl)). destruct (p x); auto.
+  rewrite IH by (intros; apply H; auto). destruct (remove_first p l); reflexivity.
+Qed.
+
+(* Python's == between two such trees is Python's == between their values *)
+Lemma htree_pyeq : forall t1, htree t1 = true -> forall t2, htree t2 = true ->
+  tree_pyeq t1 t2 = val_eqb scalar_pyeq (hval t1) (hval t2).
+Proof.
+  induction t1 as [k s|d i|l IH|l IH|a kvs IH|a kvs IH|n m IHn IHm] using tree_ind'; intros H1 t2 H2;
+    destruct t2 as [k2 s2|d2 i2|l2|l2|a2 kvs2|a2 kvs2|n2 m2]; simpl in H1, H2; try discriminate; try reflexivity.
+  simpl. revert l2 H2. induction IH as [|x xs Hx HF IHl]; intros l2 H2.
+  - destruct l2; reflexivity.
+  - simpl in H1. apply andb_prop in H1. destruct H1 as [Hx1 Hxs1]. simpl.
+    rewrite (remove_first_map hval (tree_pyeq x) (val_eqb scalar_pyeq (hval x)) l2).
+    + destruct (remove_first (tree_pyeq x) l2) as [r|] eqn:E; simpl; auto.
+      apply IHl; auto. apply forallb_forall. intros y Hy. rewrite forallb_forall in H2.
+      apply H2. eapply remove_first_In; eauto.
+    + intros y Hy. apply Hx; auto. rewrite forallb_forall in H2. auto.
+Qed.
+
 (* ================================================================== 6. (a) acyclic graphs are built faithfully *)
+
+Lemma no_obj_lookup : forall g, has_objects g = false -> forall i c f, lookup g i = Some (PObj c f) -> False.
+Proof.
+  intros g Hnoobj i c f H. apply lookup_In in H. unfold has_objects in Hnoobj.
+  assert (E : existsb (fun e => is_obj_node (snd e)) g = true).
+  { apply existsb_exists. exists (i, PObj c f). auto. }
+  congruence.
+Qed.
+
+(* what PyObjBuilder.default_expander yields after the class name: attribute name, attribute value, ... *)
+Definition attr_items (fs : list (string * Z)) : list item :=
+  flat_map (fun f => [ILit (fst f); IId (snd f)]) fs.
+
+Fixpoint interleave (names : list string) (ts : list tree) : list tree :=
+  match names, ts with
+  | a :: names', t :: ts' => leaf_of (SStr a) :: t :: interleave names' ts'
+  | _, _ => []
+  end.
+
+Lemma pair_up_interleave : forall names ts, length names = length ts ->
+  pair_up (interleave names ts) = combine (map leaf_of (map SStr names)) ts.
+Proof.
+  induction names as [|a names IH]; destruct ts as [|t ts]; simpl; intros H; try discriminate; auto.
+  f_equal. apply IH. lia.
+Qed.
+
+Lemma obj_tree_facts : forall cls m v w,
+  to_obj m = ROk v -> norm v = w -> copy m = m -> has_placeholder m = false ->
+  let t := TObj (leaf_of (SStr cls)) m in
+  to_obj t = ROk (VDict [(VLeafNode (SStr cls), v)])
+  /\ norm (VDict [(VLeafNode (SStr cls), v)]) = VDict [(VScalar (SStr cls), w)]
+  /\ copy t = t /\ has_placeholder t = false.
+Proof.
+  intros cls m v w H1 H2 H3 H4 t. unfold t. repeat split.
+  - simpl. rewrite H1. reflexivity.
+  - simpl. rewrite H2. reflexivity.
+  - simpl. rewrite H3. reflexivity.
+  - simpl. exact H4.
+Qed.
+
+(* facts read off the (scalar-keys) domain predicates *)
+Lemma hash_dict : forall g, hashable_positions g = true -> forall i kvs, lookup g i = Some (PDict kvs) ->
+  forallb (fun j => is_scalar_node (node_of g j)) (map fst kvs) = true.
+Proof.
+  intros g Hhash i kvs H. apply lookup_In in H. unfold hashable_positions in Hhash.
+  rewrite forallb_forall in Hhash. specialize (Hhash _ H). simpl in Hhash.
+  rewrite forallb_forall in *. intros j Hj. apply in_map_iff in Hj. destruct Hj as [kv [<- Hin]]. auto.
+Qed.
+
+Lemma wf_dict : forall g, hashable_positions g = true -> python_wf g = true ->
+  forall i kvs, lookup g i = Some (PDict kvs) ->
+  pairwise (fun a c => negb (scalar_pyeq a c)) (map (scalar_of g) (map fst kvs)) = true.
+Proof.
+  intros g Hhash Hwf i kvs H. pose proof (hash_dict g Hhash _ _ H) as Hs. apply lookup_In in H.
+  unfold python_wf in Hwf. rewrite forallb_forall in Hwf. specialize (Hwf _ H). simpl in Hwf.
+  rewrite pairwise_map. eapply pairwise_ext_in; [|exact Hwf].
+  intros a c Ha Hc. rewrite forallb_forall in Hs. rewrite (Hs a Ha), (Hs c Hc). simpl. auto.
+Qed.
+
+Lemma wf_obj : forall g, python_wf g = true -> forall i cls fs, lookup g i = Some (PObj cls fs) ->
+  pairwise (fun a c => negb (scalar_pyeq a c)) (map SStr (map fst fs)) = true.
+Proof.
+  intros g Hwf i cls fs H. apply lookup_In in H.
+  unfold python_wf in Hwf. rewrite forallb_forall in Hwf. specialize (Hwf _ H). simpl in Hwf.
+  rewrite pairwise_map. eapply pairwise_ext_in; [|exact Hwf]. intros a c _ _ E. exact E.
+Qed.
+
+Lemma sort_raises_tl_leaves : forall (tks tvs : list tree), forallb is_leaf_tree (tl tks) = true ->
+  sort_raises (combine tks tvs) = false.
+Proof.
+  intros tks tvs H. unfold sort_raises. apply existsb_false_forall. intros [k v] Hin.
+  destruct tks as [|t tks]; [destruct Hin|]. destruct tvs as [|t' tvs]; [destruct Hin|].
+  simpl in *. apply in_combine_l in Hin. rewrite forallb_forall in H. rewrite (H _ Hin). reflexivity.
+Qed.
+
+(* a dictionary tree whose keys are trees of hashable values, pairwise unequal for Python *)
+Lemma dict_tree_facts2 : forall (tks tvs : list tree) kvals vvs attrs,
+  length tks = length tvs ->
+  forallb htree tks = true -> map hval tks = kvals ->
+  pairwise (fun a c => negb (val_eqb scalar_pyeq a c)) kvals = true ->
+  map copy tks = tks -> existsb has_placeholder tks = false ->
+  all_ok (map to_obj tvs) = ROk (map tov tvs) -> map norm (map tov tvs) = vvs ->
+  map copy tvs = tvs -> existsb has_placeholder tvs = false ->
+  let items := combine tks tvs in
+  dict_of tree_pyeq items = items /\
+  forall t, t = TDict attrs items \/ t = TFDict attrs items ->
+    to_obj t = ROk (VDict (combine kvals (map tov tvs)))
+    /\ norm (VDict (combine kvals (map tov tvs))) = VDict (combine kvals vvs)
+    /\ copy t = t /\ has_placeholder t = false.
+Proof.
+  intros tks tvs kvals vvs attrs Hlen Hht Hkv Hpw Kcopy Kph Hto Hnorm Hcopy Hph items.
+  assert (Hlk : length kvals = length tks) by (rewrite <- Hkv, map_length; reflexivity).
+  assert (Hd : dict_of tree_pyeq items = items).
+  { apply dict_of_id. unfold items. rewrite map_fst_combine; auto.
+    rewrite <- Hkv in Hpw. rewrite pairwise_map in Hpw. eapply pairwise_ext_in; [|exact Hpw].
+    intros a c Ha Hc E. rewrite forallb_forall in Hht. rewrite htree_pyeq; auto. }
+  assert (Hkeysto : all_ok (map to_obj tks) = ROk kvals).
+  { rewrite <- Hkv. clear -Hht. induction tks as [|t tks IH]; simpl; auto.
+    simpl in Hht. apply andb_prop in Hht. destruct Hht as [H1 H2].
+    rewrite (htree_to_obj _ H1), (IH H2). reflexivity. }
+  assert (Hknorm : map norm kvals = kvals).
+  { rewrite <- Hkv. clear -Hht. induction tks as [|t tks IH]; simpl; auto.
+    simpl in Hht. apply andb_prop in Hht. destruct Hht as [H1 H2].
+    rewrite (htree_norm _ H1), (IH H2). reflexivity. }
+  assert (Hcp : map (fun kv => (copy (fst kv), copy (snd kv))) items = items).
+  { unfold items. rewrite map_combine. rewrite Kcopy, Hcopy. reflexivity. }
+  assert (Hobj : all_ok (map (fun kv => pair_res (to_obj (fst kv)) (to_obj (snd kv))) items)
+                 = ROk (combine kvals (map tov tvs))).
+  { unfold items. apply all_ok_pairs; auto. }
+  assert (Hhash : forallb (fun p : pyval * pyval => hashable (fst p)) (combine kvals (map tov tvs)) = true).
+  { apply forallb_forall. intros [k v] Hin. apply in_combine_l in Hin. rewrite <- Hkv in Hin.
+    apply in_map_iff in Hin. destruct Hin as [t [<- Ht]]. rewrite forallb_forall in Hht.
+    simpl. apply htree_hashable. auto. }
+  assert (Hd2 : dict_of py_val_eq (combine kvals (map tov tvs)) = combine kvals (map tov tvs)).
+  { apply dict_of_id. rewrite map_fst_combine by (rewrite map_length; lia). exact Hpw. }
+  split; [exact Hd|].
+  intros t [-> | ->]; (split; [|split; [|split]]).
+  - simpl. fold items. rewrite Hobj, Hhash, Hd2. reflexivity.
+  - simpl. rewrite map_combine. rewrite Hknorm, Hnorm. reflexivity.
+  - simpl. rewrite Hcp. reflexivity.
+  - simpl. apply existsb_combine_false; auto.
+  - simpl. fold items. rewrite Hobj, Hhash, Hd2. reflexivity.
+  - simpl. rewrite map_combine. rewrite Hknorm, Hnorm. reflexivity.
+  - simpl. rewrite Hcp, Hd. reflexivity.
+  - simpl. apply existsb_combine_false; auto.
+Qed.
 
 Section Faithful.
   Variable b : bkind.
   Variable o : opts.
   Variable g : graph.
-  Hypothesis Hhash : hashable_positions g = true.
-  Hypothesis Hwf : python_wf g = true.
-  Hypothesis Hnoobj : has_objects g = false.
+  (* keys and set elements are scalars or sets; under the sorting strategies only the first key may be a set *)
+  Hypothesis Hkeys : key_positions o g = true.
+  Hypothesis Hwf : python_wf_keys g = true.
+  (* custom objects only with pydiff's builder (BasicBuilder raises NotImplementedError on them) *)
+  Hypothesis Hobjs : has_objects g = false \/ b = PyObjB.
 
   Notation bigs := (bigs b o g).
   Notation kids := (kids b o g).
@@ -631,7 +1071,7 @@ Section Faithful.
     to_obj t = ROk (tov t) /\ norm (tov t) = v /\ copy t = t /\ has_placeholder t = false
     /\ lookup g i <> None
     /\ (forall s, lookup g i = Some (PScalar s) -> t = leaf_of s)
-    /\ (is_scalar_node (node_of g i) || is_set_node (node_of g i) = true -> hashable (tov t) = true).
+    /\ (is_scalar_node (node_of g i) || is_set_node (node_of g i) = true -> htree t = true).
 
   Inductive Built3 (stack : list item) (rec : item -> outcome * nat)
     : list Z -> list tree -> list pyval -> Prop :=
@@ -662,14 +1102,37 @@ Section Faithful.
       rewrite G1, I1, G2, I2, G3, I3, G4, I4, I5, I6. repeat split; reflexivity.
   Qed.
 
-  Lemma B3_hashable : forall stack rec l ts vs, Built3 stack rec l ts vs ->
+  Lemma B3_htree : forall stack rec l ts vs, Built3 stack rec l ts vs ->
     forallb (fun j => is_scalar_node (node_of g j) || is_set_node (node_of g j)) l = true ->
-    forallb hashable (map tov ts) = true.
+    forallb htree ts = true.
   Proof.
     induction 1 as [|j t v l ts vs Hf Hr Hg HB IH]; simpl; intros H; auto.
     apply andb_prop in H. destruct H as [H1 H2].
     destruct Hg as [_ [_ [_ [_ [_ [_ G]]]]]]. rewrite (G H1). simpl. auto.
   Qed.
+
+  Lemma B3_hashable : forall stack rec l ts vs, Built3 stack rec l ts vs ->
+    forallb (fun j => is_scalar_node (node_of g j) || is_set_node (node_of g j)) l = true ->
+    forallb hashable (map tov ts) = true.
+  Proof.
+    intros stack rec l ts vs HB H. pose proof (B3_htree _ _ _ _ _ HB H) as Hht. clear -Hht.
+    induction ts as [|t ts IH]; simpl; auto. simpl in Hht. apply andb_prop in Hht. destruct Hht as [H1 H2].
+    rewrite (htree_tov _ H1), (htree_hashable _ H1). simpl. auto.
+  Qed.
+
+  (* the values of such children are the hval of their trees *)
+  Lemma B3_hval : forall stack rec l ts vs, Built3 stack rec l ts vs ->
+    forallb (fun j => is_scalar_node (node_of g j) || is_set_node (node_of g j)) l = true ->
+    map hval ts = vs.
+  Proof.
+    induction 1 as [|j t v l ts vs Hf Hr Hg HB IH]; simpl; intros H; auto.
+    apply andb_prop in H. destruct H as [H1 H2]. rewrite (IH H2).
+    destruct Hg as [_ [G2 [_ [_ [_ [_ G]]]]]]. specialize (G H1).
+    rewrite (htree_tov _ G), (htree_norm _ G) in G2. rewrite G2. reflexivity.
+  Qed.
+
+  Lemma B3_tl : forall stack rec l ts vs, Built3 stack rec l ts vs -> Built3 stack rec (tl l) (tl ts) (tl vs).
+  Proof. intros stack rec l ts vs HB. destruct HB; simpl; auto. constructor. Qed.
 
   Lemma B3_scalars : forall stack rec l ts vs, Built3 stack rec l ts vs ->
     forallb (fun j => is_scalar_node (node_of g j)) l = true ->
@@ -683,12 +1146,46 @@ Section Faithful.
     rewrite (G6 s eq_refl) in *. unfold tov in G2. simpl in G2. subst v. auto.
   Qed.
 
-  Lemma no_obj_lookup : forall i c f, lookup g i = Some (PObj c f) -> False.
+  Lemma B3_leaves : forall stack rec l ts vs, Built3 stack rec l ts vs ->
+    forallb (fun j => is_scalar_node (node_of g j)) l = true -> forallb is_leaf_tree ts = true.
   Proof.
-    intros i c f H. apply lookup_In in H. unfold has_objects in Hnoobj.
-    assert (E : existsb (fun e => is_obj_node (snd e)) g = true).
-    { apply existsb_exists. exists (i, PObj c f). auto. }
-    congruence.
+    intros stack rec l ts vs HB H. destruct (B3_scalars _ _ _ _ _ HB H) as [-> _].
+    clear. induction (map (scalar_of g) l) as [|s ss IH]; simpl; auto.
+  Qed.
+
+  (* the str objects PyObjBuilder yields are leaves: never flagged, built in one step *)
+  Lemma lit_flagged : forall s stack, flagged (ILit s) stack = false.
+  Proof. reflexivity. Qed.
+
+  Lemma lit_big : forall s d anc, bigs (S d) anc (ILit s) = (Built (leaf_of (SStr s)), 1).
+  Proof. reflexivity. Qed.
+
+  Lemma B3_kids_attrs : forall stack rec,
+    (forall s, rec (ILit s) = (Built (leaf_of (SStr s)), 1)) ->
+    forall fs ts vs, Built3 stack rec (map snd fs) ts vs ->
+    exists n, kids rec stack (attr_items fs) = (inl (interleave (map fst fs) ts), n).
+  Proof.
+    intros stack rec Hlit. induction fs as [|[a j] fs IH]; intros ts vs HB; simpl map in HB; inversion HB; subst.
+    - exists 0. reflexivity.
+    - match goal with HB' : Built3 _ _ (map snd fs) _ _ |- _ => destruct (IH _ _ HB') as [n2 Hn2] end.
+      match goal with Hr : exists n, rec (IId j) = _ |- _ => destruct Hr as [n1 Hr1] end.
+      match goal with Hf : flagged (IId j) stack = false |- _ =>
+        change (attr_items ((a, j) :: fs)) with (ILit a :: IId j :: attr_items fs);
+        cbn [kids]; rewrite (lit_flagged a stack), Hlit, Hf, Hr1, Hn2 end.
+      simpl. eauto.
+  Qed.
+
+  Lemma obj_unfold_split : forall d fs ps,
+    map_opt (fun f : string * Z => match unfold d g (snd f) with
+                                   | Some v => Some (VScalar (SStr (fst f)), v) | None => None end) fs = Some ps ->
+    Forall2 (fun j v => unfold d g j = Some v) (map snd fs) (map snd ps)
+    /\ map fst ps = map VScalar (map SStr (map fst fs)).
+  Proof.
+    induction fs as [|[a j] fs IH]; simpl; intros ps H.
+    - inversion H. simpl. split; [constructor|reflexivity].
+    - destruct (unfold d g j) eqn:Ej; try discriminate.
+      match type of H with match ?m with _ => _ end = _ => destruct m eqn:E end; try discriminate.
+      inversion H. subst. simpl. destruct (IH _ eq_refl) as [I1 I2]. split; [constructor; auto|congruence].
   Qed.
 
   Lemma bigs_built : forall d anc it ts n t,
@@ -709,28 +1206,53 @@ Section Faithful.
       inversion H. subst. simpl. destruct (IH _ eq_refl). split; constructor; auto.
   Qed.
 
-  Lemma hash_dict : forall i kvs, lookup g i = Some (PDict kvs) ->
-    forallb (fun j => is_scalar_node (node_of g j)) (map fst kvs) = true.
+  Lemma wf_obj_keys : forall i cls fs, lookup g i = Some (PObj cls fs) ->
+    pairwise (fun a c => negb (scalar_pyeq a c)) (map SStr (map fst fs)) = true.
   Proof.
-    intros i kvs H. apply lookup_In in H. unfold hashable_positions in Hhash.
-    rewrite forallb_forall in Hhash. specialize (Hhash _ H). simpl in Hhash.
-    rewrite forallb_forall in *. intros j Hj. apply in_map_iff in Hj. destruct Hj as [kv [<- Hin]]. auto.
+    intros i cls fs H. apply lookup_In in H.
+    unfold python_wf_keys in Hwf. rewrite forallb_forall in Hwf. specialize (Hwf _ H). simpl in Hwf.
+    rewrite pairwise_map. eapply pairwise_ext_in; [|exact Hwf]. intros a c _ _ E. exact E.
   Qed.
 
-  Lemma hash_set : forall i l, lookup g i = Some (PSet l) ->
+  Lemma keys_dict : forall i kvs, lookup g i = Some (PDict kvs) ->
+    forallb (fun j => is_scalar_node (node_of g j) || is_set_node (node_of g j)) (map fst kvs) = true
+    /\ (allow_key_edits o = true ->
+        forallb (fun j => is_scalar_node (node_of g j)) (tl (map fst kvs)) = true).
+  Proof.
+    intros i kvs H. apply lookup_In in H. unfold key_positions in Hkeys.
+    rewrite forallb_forall in Hkeys. specialize (Hkeys _ H). simpl in Hkeys.
+    apply andb_prop in Hkeys. destruct Hkeys as [K1 K2]. split.
+    - rewrite forallb_forall in *. intros j Hj. apply in_map_iff in Hj. destruct Hj as [kv [<- Hin]]. auto.
+    - intros Hake. rewrite Hake in K2. simpl in K2. destruct kvs as [|kv kvs]; simpl in *; auto.
+      rewrite forallb_forall in *. intros j Hj. apply in_map_iff in Hj. destruct Hj as [kv' [<- Hin]]. auto.
+  Qed.
+
+  Lemma keys_set : forall i l, lookup g i = Some (PSet l) ->
     forallb (fun j => is_scalar_node (node_of g j) || is_set_node (node_of g j)) l = true.
   Proof.
-    intros i l H. apply lookup_In in H. unfold hashable_positions in Hhash.
-    rewrite forallb_forall in Hhash. exact (Hhash _ H).
+    intros i l H. apply lookup_In in H. unfold key_positions in Hkeys.
+    rewrite forallb_forall in Hkeys. exact (Hkeys _ H).
   Qed.
 
-  Lemma wf_dict : forall i kvs, lookup g i = Some (PDict kvs) ->
-    pairwise (fun a c => negb (scalar_pyeq a c)) (map (scalar_of g) (map fst kvs)) = true.
+  Lemma wfk_dict : forall i kvs, lookup g i = Some (PDict kvs) ->
+    pairwise (fun a c => negb (key_pyeq g a c)) (map fst kvs) = true.
   Proof.
-    intros i kvs H. pose proof (hash_dict _ _ H) as Hs. apply lookup_In in H.
-    unfold python_wf in Hwf. rewrite forallb_forall in Hwf. specialize (Hwf _ H). simpl in Hwf.
-    rewrite pairwise_map. eapply pairwise_ext_in; [|exact Hwf].
-    intros a c Ha Hc. rewrite forallb_forall in Hs. rewrite (Hs a Ha), (Hs c Hc). simpl. auto.
+    intros i kvs H. apply lookup_In in H.
+    unfold python_wf_keys in Hwf. rewrite forallb_forall in Hwf. exact (Hwf _ H).
+  Qed.
+
+  (* Python-unequal key objects have Python-unequal values *)
+  Lemma pairwise_unfold : forall d l vs, Forall2 (fun j v => unfold d g j = Some v) l vs ->
+    pairwise (fun a c => negb (key_pyeq g a c)) l = true ->
+    pairwise (fun x y => negb (val_eqb scalar_pyeq x y)) vs = true.
+  Proof.
+    intros d l vs HF. induction HF as [|j v l vs Hj HF IH]; simpl; intros H; auto.
+    apply andb_prop in H. destruct H as [H1 H2]. rewrite (IH H2), andb_true_r.
+    clear IH H2. induction HF as [|j' v' l vs Hj' HF IH]; simpl; auto.
+    simpl in H1. apply andb_prop in H1. destruct H1 as [H1 H2]. rewrite (IH H2), andb_true_r.
+    unfold key_pyeq in H1.
+    pose proof (unfold_depth_complete g _ _ _ Hj) as E1. pose proof (unfold_depth_complete g _ _ _ Hj') as E2.
+    unfold unfold_depth in E1, E2. rewrite E1, E2 in H1. exact H1.
   Qed.
 
   Lemma acyclic_builds : forall d i v, unfold d g i = Some v -> forall anc,
@@ -772,7 +1294,7 @@ Section Faithful.
       exists (TList ts), (S n). split.
       + apply bigs_built with (ts := ts); unfold expand, build; rewrite Hl; auto.
       + assert (Hto : to_obj (TList ts) = ROk (VList (map tov ts))) by (simpl; rewrite F1; reflexivity).
-        unfold good. unfold tov at 1 2 3. rewrite Hto. unfold node_of. rewrite Hl. simpl.
+        unfold good. unfold tov at 1 2. rewrite Hto. unfold node_of. rewrite Hl. simpl.
         rewrite F2, F3, F4. repeat split; auto; try discriminate.
     - (* tuple *)
       destruct (map_opt (unfold d g) l) as [vs|] eqn:E; [|discriminate]. inversion H; subst.
@@ -781,19 +1303,20 @@ Section Faithful.
       exists (TList ts), (S n). split.
       + apply bigs_built with (ts := ts); unfold expand, build; rewrite Hl; auto.
       + assert (Hto : to_obj (TList ts) = ROk (VList (map tov ts))) by (simpl; rewrite F1; reflexivity).
-        unfold good. unfold tov at 1 2 3. rewrite Hto. unfold node_of. rewrite Hl. simpl.
+        unfold good. unfold tov at 1 2. rewrite Hto. unfold node_of. rewrite Hl. simpl.
         rewrite F2, F3, F4. repeat split; auto; try discriminate.
     - (* set *)
       destruct (map_opt (unfold d g) l) as [vs|] eqn:E; [|discriminate]. inversion H; subst.
       destruct (CH l vs) as [ts HB]; [intros j Hj; exists (PSet l); auto|apply map_opt_Forall2; auto|].
       destruct (B3_kids _ _ _ _ _ HB) as [n Hk]. destruct (B3_facts _ _ _ _ _ HB) as [F1 [F2 [F3 [F4 _]]]].
-      pose proof (B3_hashable _ _ _ _ _ HB (hash_set _ _ Hl)) as Hh.
+      pose proof (B3_hashable _ _ _ _ _ HB (keys_set _ _ Hl)) as Hh.
+      pose proof (B3_htree _ _ _ _ _ HB (keys_set _ _ Hl)) as Hht.
       exists (TMSet ts), (S n). split.
       + apply bigs_built with (ts := ts); unfold expand, build; rewrite Hl; auto.
       + assert (Hto : to_obj (TMSet ts) = ROk (VMSet (map tov ts))) by (simpl; rewrite F1, Hh; reflexivity).
-        unfold good. unfold tov at 1 2 3. rewrite Hto. unfold node_of. rewrite Hl. simpl.
+        unfold good. unfold tov at 1 2. rewrite Hto. unfold node_of. rewrite Hl. simpl.
         rewrite F2, F3, F4. repeat split; auto; try discriminate.
-    - (* dict *)
+    - (* dict: the keys are trees of hashable values (leaves, multisets) *)
       match type of H with option_map _ (map_opt ?f kvs) = _ => destruct (map_opt f kvs) as [ps|] eqn:E end;
         [|discriminate].
       inversion H; subst. destruct (dict_unfold_split _ _ _ E) as [FK FV].
@@ -803,38 +1326,122 @@ Section Faithful.
         [intros j Hj; exists (PDict kvs); split; auto; simpl; apply in_or_app; auto|auto|].
       pose proof (B3_app _ _ _ _ _ _ _ _ HK HV) as HB.
       destruct (B3_kids _ _ _ _ _ HB) as [n Hk]. rewrite map_app in Hk.
-      destruct (B3_facts _ _ _ _ _ HK) as [_ [_ [_ [_ [K5 K6]]]]].
+      destruct (B3_facts _ _ _ _ _ HK) as [_ [_ [K3 [K4 [K5 K6]]]]].
       destruct (B3_facts _ _ _ _ _ HV) as [V1 [V2 [V3 [V4 [V5 V6]]]]].
-      destruct (B3_scalars _ _ _ _ _ HK (hash_dict _ _ Hl)) as [Etk Evk].
+      destruct (keys_dict _ _ Hl) as [Hks Hsort].
+      pose proof (B3_htree _ _ _ _ _ HK Hks) as Hht.
+      pose proof (B3_hval _ _ _ _ _ HK Hks) as Hkv.
+      pose proof (pairwise_unfold _ _ _ FK (wfk_dict _ _ Hl)) as Hpw.
       rewrite !map_length in *.
-      set (keys := map (scalar_of g) (map fst kvs)) in *.
-      assert (Hlen : length tvs = length keys) by (unfold keys; rewrite !map_length; auto).
-      destruct (dict_tree_facts keys tvs (map snd ps) false Hlen (wf_dict _ _ Hl) V1 V2 V3 V4) as [D1 [D2 D3]].
+      assert (Hlen : length tks = length tvs) by lia.
+      destruct (dict_tree_facts2 tks tvs (map fst ps) (map snd ps) false Hlen Hht Hkv Hpw K3 K4 V1 V2 V3 V4)
+        as [D1 D3].
       assert (Hitems : combine (firstn (Nat.div2 (length (tks ++ tvs))) (tks ++ tvs))
                                (skipn (Nat.div2 (length (tks ++ tvs))) (tks ++ tvs))
-                       = combine (map leaf_of keys) tvs).
-      { rewrite div2_len_app by lia. rewrite firstn_len_app, skipn_len_app. rewrite Etk. reflexivity. }
-      assert (Hps : ps = combine (map VScalar keys) (map snd ps)).
-      { rewrite <- Evk. symmetry. apply combine_fst_snd. }
+                       = combine tks tvs).
+      { rewrite div2_len_app by lia. rewrite firstn_len_app, skipn_len_app. reflexivity. }
+      assert (Hps : ps = combine (map fst ps) (map snd ps)) by (symmetry; apply combine_fst_snd).
       destruct (allow_key_edits o) eqn:Hake.
-      + destruct (D3 (TDict false (combine (map leaf_of keys) tvs)) (or_introl eq_refl)) as [T1 [T2 [T3 T4]]].
-        exists (TDict false (combine (map leaf_of keys) tvs)), (S n). split.
+      + assert (D2 : sort_raises (combine tks tvs) = false).
+        { apply sort_raises_tl_leaves. eapply B3_leaves; [apply B3_tl; exact HK|]. apply Hsort. reflexivity. }
+        destruct (D3 (TDict false (combine tks tvs)) (or_introl eq_refl)) as [T1 [T2 [T3 T4]]].
+        exists (TDict false (combine tks tvs)), (S n). split.
         * apply bigs_built with (ts := tks ++ tvs); [unfold expand; rewrite Hl; exact Hk|].
           unfold build. rewrite Hl. rewrite Hitems, D1. unfold make_dict. rewrite Hake, D2. reflexivity.
-        * unfold good. unfold tov at 1 2 3. rewrite T1. unfold node_of. rewrite Hl.
+        * unfold good. unfold tov at 1 2. rewrite T1. unfold node_of. rewrite Hl.
           rewrite T2, T3, T4, <- Hps. simpl. repeat split; auto; try discriminate.
-      + destruct (D3 (TFDict false (combine (map leaf_of keys) tvs)) (or_intror eq_refl)) as [T1 [T2 [T3 T4]]].
-        exists (TFDict false (combine (map leaf_of keys) tvs)), (S n). split.
+      + destruct (D3 (TFDict false (combine tks tvs)) (or_intror eq_refl)) as [T1 [T2 [T3 T4]]].
+        exists (TFDict false (combine tks tvs)), (S n). split.
         * apply bigs_built with (ts := tks ++ tvs); [unfold expand; rewrite Hl; exact Hk|].
           unfold build. rewrite Hl. rewrite Hitems, D1. unfold make_dict. rewrite Hake, D1. reflexivity.
-        * unfold good. unfold tov at 1 2 3. rewrite T1. unfold node_of. rewrite Hl.
+        * unfold good. unfold tov at 1 2. rewrite T1. unfold node_of. rewrite Hl.
           rewrite T2, T3, T4, <- Hps. simpl. repeat split; auto; try discriminate.
-    - exfalso. eapply no_obj_lookup; eauto.
+    - (* instance of a class: only PyObjBuilder gets here *)
+      destruct Hobjs as [Hno|Hb]; [exfalso; eapply no_obj_lookup; eauto|].
+      match type of H with option_map _ (map_opt ?f fs) = _ => destruct (map_opt f fs) as [ps|] eqn:E end;
+        [|discriminate].
+      inversion H; subst. destruct (obj_unfold_split _ _ _ E) as [FV FK].
+      destruct (CH (map snd fs) (map snd ps)) as [tvs HV];
+        [intros j Hj; exists (PObj cls fs); split; auto|auto|].
+      destruct (B3_kids_attrs _ _ (fun s => lit_big s d (IId i :: anc)) _ _ _ HV) as [n Hk].
+      destruct (B3_facts _ _ _ _ _ HV) as [V1 [V2 [V3 [V4 [V5 V6]]]]].
+      rewrite !map_length in *.
+      set (keys := map SStr (map fst fs)) in *.
+      assert (Hlen : length tvs = length keys) by (unfold keys; rewrite !map_length; auto).
+      destruct (dict_tree_facts keys tvs (map snd ps) true Hlen (wf_obj_keys _ _ _ Hl) V1 V2 V3 V4) as [D1 [D2 D3]].
+      assert (Hpu : pair_up (interleave (map fst fs) tvs) = combine (map leaf_of keys) tvs).
+      { apply pair_up_interleave. rewrite map_length. auto. }
+      assert (Hps : ps = combine (map VScalar keys) (map snd ps)).
+      { rewrite <- FK. symmetry. apply combine_fst_snd. }
+      assert (Hexp : expand b g (IId i) = ILit cls :: attr_items fs).
+      { unfold expand. rewrite Hl, Hb. reflexivity. }
+      assert (Hbuild : forall name rest, build b o g (IId i) (name :: rest)
+                = match make_dict true o (dict_of tree_pyeq (pair_up rest)) with
+                  | BOk m => BOk (TObj name m) | BErr e => BErr e end).
+      { intros name rest. unfold build. rewrite Hl, Hb. reflexivity. }
+      assert (Hkids : kids (bigs (S d) (IId i :: anc)) (IId i :: anc) (expand b g (IId i))
+                      = (inl (leaf_of (SStr cls) :: interleave (map fst fs) tvs), S (1 + n))).
+      { rewrite Hexp. cbn [kids]. rewrite (lit_flagged cls), (lit_big cls d (IId i :: anc)), Hk. reflexivity. }
+      destruct (allow_key_edits o) eqn:Hake.
+      + destruct (D3 (TDict true (combine (map leaf_of keys) tvs)) (or_introl eq_refl)) as [T1 [T2 [T3 T4]]].
+        exists (TObj (leaf_of (SStr cls)) (TDict true (combine (map leaf_of keys) tvs))), (S (S (1 + n))). split.
+        * apply bigs_built with (ts := leaf_of (SStr cls) :: interleave (map fst fs) tvs); [exact Hkids|].
+          rewrite Hbuild. rewrite Hpu, D1. unfold make_dict. rewrite Hake, D2. reflexivity.
+        * destruct (obj_tree_facts cls _ _ _ T1 T2 T3 T4) as [O1 [O2 [O3 O4]]].
+          unfold good. unfold tov at 1 2. rewrite O1. unfold node_of. rewrite Hl.
+          rewrite O2, O3, O4, <- Hps. simpl. repeat split; auto; try discriminate.
+      + destruct (D3 (TFDict true (combine (map leaf_of keys) tvs)) (or_intror eq_refl)) as [T1 [T2 [T3 T4]]].
+        exists (TObj (leaf_of (SStr cls)) (TFDict true (combine (map leaf_of keys) tvs))), (S (S (1 + n))). split.
+        * apply bigs_built with (ts := leaf_of (SStr cls) :: interleave (map fst fs) tvs); [exact Hkids|].
+          rewrite Hbuild. rewrite Hpu, D1. unfold make_dict. rewrite Hake, D1. reflexivity.
+        * destruct (obj_tree_facts cls _ _ _ T1 T2 T3 T4) as [O1 [O2 [O3 O4]]].
+          unfold good. unfold tov at 1 2. rewrite O1. unfold node_of. rewrite Hl.
+          rewrite O2, O3, O4, <- Hps. simpl. repeat split; auto; try discriminate.
   Qed.
 
 End Faithful.
 
 (* ================================================================== 7. (c) cycles are detected *)
+
+Lemma existsb_combine_keys : forall (keys : list scalar) (tvs : list tree), length tvs = length keys ->
+  existsb (fun kv => has_placeholder (fst kv) || has_placeholder (snd kv)) (combine (map leaf_of keys) tvs)
+  = existsb has_placeholder tvs.
+Proof.
+  induction keys as [|k keys IH]; destruct tvs as [|t tvs]; simpl; intros H; try discriminate; auto.
+  rewrite IH by lia. reflexivity.
+Qed.
+
+(* a dictionary tree with scalar keys whose values are their own copies *)
+Lemma dict_inv_facts : forall (keys : list scalar) tvs a,
+  length tvs = length keys ->
+  pairwise (fun x y => negb (scalar_pyeq x y)) keys = true ->
+  map copy tvs = tvs -> forallb cyc0 tvs = true ->
+  let items := combine (map leaf_of keys) tvs in
+  dict_of tree_pyeq items = items /\ sort_raises items = false /\
+  forall t, t = TDict a items \/ t = TFDict a items ->
+    copy t = t /\ cyc0 t = true /\ has_placeholder t = existsb has_placeholder tvs.
+Proof.
+  intros keys tvs a Hlen Hpw Hcopy Hc0 items.
+  assert (Hd : dict_of tree_pyeq items = items).
+  { apply dict_of_id. unfold items. rewrite map_fst_combine by (rewrite map_length; auto).
+    rewrite pairwise_map. exact Hpw. }
+  assert (Hcp : map (fun kv => (copy (fst kv), copy (snd kv))) items = items).
+  { unfold items. rewrite map_combine. rewrite Hcopy. f_equal.
+    clear. induction keys as [|s keys IHk]; simpl; auto. rewrite IHk. reflexivity. }
+  assert (H0 : forallb (fun kv => cyc0 (fst kv) && cyc0 (snd kv)) items = true).
+  { apply forallb_combine_cyc0; auto. clear. induction keys as [|s keys IHk]; simpl; auto. }
+  split; [exact Hd|]. split.
+  { apply sort_raises_leaf_keys. intros [k v] Hin. apply in_combine_l in Hin. apply in_map_iff in Hin.
+    destruct Hin as [s [<- _]]. reflexivity. }
+  intros t [-> | ->]; (split; [|split]); simpl; auto; try (apply existsb_combine_keys; exact Hlen).
+  - rewrite Hcp. reflexivity.
+  - rewrite Hcp, Hd. reflexivity.
+Qed.
+
+Lemma obj_inv_facts : forall cls m, copy m = m -> cyc0 m = true ->
+  let t := TObj (leaf_of (SStr cls)) m in
+  copy t = t /\ cyc0 t = true /\ has_placeholder t = has_placeholder m.
+Proof. intros cls m H1 H2 t. unfold t. simpl. rewrite H1, H2. auto. Qed.
 
 Section Cyclic.
   Variable b : bkind.
@@ -842,7 +1449,7 @@ Section Cyclic.
   Variable g : graph.
   Hypothesis Hhash : hashable_positions g = true.
   Hypothesis Hwf : python_wf g = true.
-  Hypothesis Hnoobj : has_objects g = false.
+  Hypothesis Hobjs : has_objects g = false \/ b = PyObjB.
   Hypothesis Hclosed : closed g = true.
 
   Notation bigs := (bigs b o g).
@@ -923,6 +1530,40 @@ Section Cyclic.
     induction a as [|x a IH]; destruct c as [|y c]; simpl; intros Hl H; try discriminate; auto.
     apply orb_false_elim in H. destruct H as [H1 H2]. apply orb_false_elim in H1. destruct H1 as [_ H1].
     rewrite H1. simpl. apply IH; auto.
+  Qed.
+
+  (* how a child was delivered: as a placeholder, or built by the recursive run *)
+  Definition childR (d : nat) (stack : list item) (c : item) (t : tree) : Prop :=
+    (flagged c stack = true /\ ignore_cycles o = true /\ t = placeholder c)
+    \/ (flagged c stack = false /\ exists m, bigs d stack c = (Built t, m)).
+
+  Lemma lit_childR : forall d stack s t, childR d stack (ILit s) t -> t = leaf_of (SStr s).
+  Proof.
+    intros d stack s t [[Hf _]|[_ [m Hm]]]; [discriminate|].
+    destruct d as [|d]; simpl in Hm; inversion Hm. reflexivity.
+  Qed.
+
+  Lemma lit_not_raised : forall d stack s e m, bigs d stack (ILit s) <> (Raised e, m).
+  Proof. intros [|d] stack s e m; simpl; discriminate. Qed.
+
+  Lemma attrs_childR : forall d stack fs rest, Forall2 (childR d stack) (attr_items fs) rest ->
+    exists tvs, rest = interleave (map fst fs) tvs /\ Forall2 (childR d stack) (map IId (map snd fs)) tvs.
+  Proof.
+    intros d stack. induction fs as [|[a j] fs IH]; intros rest HF.
+    - inversion HF. exists []. split; [reflexivity|constructor].
+    - change (attr_items ((a, j) :: fs)) with (ILit a :: IId j :: attr_items fs) in HF.
+      inversion HF as [|x1 t1 l1 r1 Ha HF1]; subst. inversion HF1 as [|x2 t2 l2 r2 Hj HF2]; subst.
+      destruct (IH _ HF2) as [tvs [-> HV]]. apply lit_childR in Ha. subst t1.
+      exists (t2 :: tvs). split; [reflexivity|]. simpl. constructor; auto.
+  Qed.
+
+  Lemma obj_unfold_join : forall d fs vs, map_opt (unfold d g) (map snd fs) = Some vs ->
+    exists ps, map_opt (fun f : string * Z => match unfold d g (snd f) with
+                                              | Some v => Some (VScalar (SStr (fst f)), v) | None => None end) fs = Some ps.
+  Proof.
+    induction fs as [|[a j] fs IH]; simpl; intros vs H; eauto.
+    destruct (unfold d g j); try discriminate. destruct (map_opt (unfold d g) (map snd fs)) eqn:E; try discriminate.
+    destruct (IH _ eq_refl) as [ps Hps]. rewrite Hps. eauto.
   Qed.
 
   (* what a finished big-step run can be, in the domain: a tree without placeholder only for an object
@@ -1060,33 +1701,125 @@ Section Cyclic.
              rewrite !map_length. lia.
           -- intros Hi. apply existsb_combine_false; auto.
           -- rewrite Hcp, D1. reflexivity.
-        * exfalso. eapply no_obj_lookup; eauto.
+        * (* instance of a class *)
+          destruct Hobjs as [Hno|Hb]; [exfalso; eapply no_obj_lookup; eauto|].
+          rewrite Hb in Hk, H. cbv iota in Hk. rewrite <- Hb in Hk.
+          change (flat_map (fun f : string * Z => [ILit (fst f); IId (snd f)]) fs) with (attr_items fs) in Hk.
+          inversion Hk as [|x1 tn l1 rest Hn HA]; try subst ts; clear Hk.
+          apply (lit_childR d (IId i :: anc)) in Hn. subst tn.
+          destruct (attrs_childR d (IId i :: anc) _ _ HA) as [tvs [-> HV]].
+          assert (Hvals : forall j, In j (map snd fs) -> lookup g j <> None).
+          { intros j Hj. apply (closed_succ _ _ _ Hl). exact Hj. }
+          destruct (CH (map snd fs) tvs Hvals HV) as [C1 [C2 [C3 C4]]].
+          assert (Hlv : length tvs = length (map SStr (map fst fs))).
+          { apply F2_length in HV. rewrite !map_length in *. auto. }
+          destruct (dict_inv_facts (map SStr (map fst fs)) tvs true Hlv (wf_obj g Hwf _ _ _ Hl) C3 C4) as [D1 [D2 D3]].
+          rewrite pair_up_interleave in H by (rewrite !map_length in Hlv; rewrite map_length; auto).
+          rewrite D1 in H. unfold make_dict in H. rewrite D2 in H. rewrite ?D1 in H.
+          assert (Hunf : existsb has_placeholder tvs = false -> exists v, unfold (S d) g i = Some v).
+          { intros E. destruct (C1 E) as [vs Hvs]. destruct (obj_unfold_join _ _ _ Hvs) as [ps Hps].
+            simpl. rewrite Hl, Hps. simpl. eauto. }
+          destruct (allow_key_edits o); inversion H; subst.
+          -- destruct (D3 _ (or_introl eq_refl)) as [T1 [T2 T3]].
+             destruct (obj_inv_facts cls _ T1 T2) as [O1 [O2 O3]].
+             unfold inv_result. rewrite O1, O2, O3, T3. repeat split; auto.
+          -- destruct (D3 _ (or_intror eq_refl)) as [T1 [T2 T3]].
+             destruct (obj_inv_facts cls _ T1 T2) as [O1 [O2 O3]].
+             unfold inv_result. rewrite O1, O2, O3, T3. repeat split; auto.
       + (* a child raised, or ran out of depth *)
         inversion H; subst. destruct r as [t|e|]; simpl; auto.
         * exfalso. eapply kids_not_built. rewrite Hk. reflexivity.
         * apply kids_err in Hk. destruct Hk as [?|[c [m [Hin Hc]]]]; auto.
           unfold expand in Hin. destruct (lookup g i) as [nd|] eqn:Hl; [|destruct Hin].
-          assert (Hc' : exists j, c = IId j /\ In j (succs nd)).
+          assert (Hc' : (exists j, c = IId j /\ In j (succs nd)) \/ exists s, c = ILit s).
           { destruct nd as [s|l|l|l|kvs|cls fs]; simpl in *; try (destruct Hin; fail);
               try (apply in_map_iff in Hin; destruct Hin as [j [<- Hj]]; eauto; fail).
             - rewrite <- map_app in Hin. apply in_map_iff in Hin. destruct Hin as [j [<- Hj]]. eauto.
-            - exfalso. eapply no_obj_lookup; eauto. }
-          destruct Hc' as [j [-> Hj]].
-          exact (IH _ _ _ _ (closed_succ _ _ _ Hl Hj) Hc).
+            - destruct Hobjs as [Hno|Hb]; [exfalso; eapply no_obj_lookup; eauto|].
+              rewrite Hb in Hin. destruct Hin as [<-|Hin]; [right; eauto|].
+              apply in_flat_map in Hin. destruct Hin as [[a j] [Hf Hin2]]. simpl in Hin2.
+              destruct Hin2 as [<-|[<-|[]]]; [right; eauto|].
+              left. exists j. split; auto. apply in_map_iff. exists (a, j). auto. }
+          destruct Hc' as [[j [-> Hj]]|[s ->]].
+          -- exact (IH _ _ _ _ (closed_succ _ _ _ Hl Hj) Hc).
+          -- exfalso. exact (lit_not_raised _ _ _ _ _ Hc).
   Qed.
 
 End Cyclic.
 
 (* ================================================================== 8. the theorems *)
 
-(* (a) for graphs without custom objects: the machine halts with a tree whose to_obj() is the plain value of
-   the graph (LeafNode keys aside, literally: same order), whose copy is itself, without placeholder *)
+(* ------------------------------------------------------------------ the domain predicates *)
+
+(* the extended domain contains the scalar-keys domain *)
+Lemma key_positions_of_hashable : forall o g, hashable_positions g = true -> key_positions o g = true.
+Proof.
+  intros o g H. unfold key_positions, hashable_positions in *. rewrite forallb_forall in *.
+  intros e He. specialize (H e He). destruct (snd e) as [s|l|l|l|kvs|cls fs]; auto.
+  apply andb_true_intro. split.
+  - rewrite forallb_forall in *. intros kv Hkv. rewrite (H kv Hkv). reflexivity.
+  - apply orb_true_iff. right. rewrite forallb_forall in *. intros kv Hkv. apply H.
+    destruct kvs; simpl in *; auto.
+Qed.
+
+Lemma python_wf_keys_of : forall g, hashable_positions g = true -> python_wf g = true -> python_wf_keys g = true.
+Proof.
+  intros g Hh Hw. unfold python_wf_keys, python_wf, hashable_positions in *. rewrite forallb_forall in *.
+  intros e He. specialize (Hh e He). specialize (Hw e He). destruct (snd e) as [s|l|l|l|kvs|cls fs]; auto.
+  eapply pairwise_ext_in; [|exact Hw]. intros a c Ha Hc E.
+  assert (Sa : is_scalar_node (node_of g a) = true).
+  { rewrite forallb_forall in Hh. apply in_map_iff in Ha. destruct Ha as [kv [<- Hin]]. auto. }
+  assert (Sc : is_scalar_node (node_of g c) = true).
+  { rewrite forallb_forall in Hh. apply in_map_iff in Hc. destruct Hc as [kv [<- Hin]]. auto. }
+  cbv beta in E. rewrite Sa, Sc in E. simpl in E. unfold key_pyeq. rewrite !unfold_S. unfold unfold_step.
+  unfold scalar_of, node_of in *.
+  destruct (lookup g a) as [[sa| | | | |]|]; simpl in Sa; try discriminate; auto.
+  destruct (lookup g c) as [[sc| | | | |]|]; simpl in Sc; try discriminate; auto.
+Qed.
+
+Lemma existsb_false_In : forall {A} (p : A -> bool) l, existsb p l = false -> forall x, In x l -> p x = false.
+Proof.
+  intros A p l H x Hx. destruct (p x) eqn:E; auto.
+  assert (existsb p l = true) by (apply existsb_exists; eauto). congruence.
+Qed.
+
+(* the boundary of the extended domain is exactly the two open findings: outside the classes of D18 and D28
+   (and given that lists and dicts are unhashable in Python) every option set and graph is inside *)
+Theorem key_positions_boundary : forall c,
+  python_hashable (c_graph c) = true -> kf_unhashable_key c = false -> kf_container_key_sort c = false ->
+  key_positions (c_opts c) (c_graph c) = true.
+Proof.
+  intros [o g root outs]. simpl. intros Hp H18 H28.
+  unfold kf_unhashable_key, kf_container_key_sort in *. simpl in *.
+  assert (NC : forall n, is_hashable_container n = false -> is_unhashable_node n = false ->
+                         is_scalar_node n || is_set_node n = true) by (destruct n; simpl; auto; discriminate).
+  unfold key_positions, python_hashable in *. rewrite forallb_forall in *. intros e He.
+  specialize (Hp e He). pose proof (existsb_false_In _ _ H18 e He) as E18. simpl in E18.
+  destruct (snd e) as [s|l|l|l|kvs|cls fs] eqn:Ee; auto.
+  - rewrite forallb_forall in *. intros j Hj. apply NC.
+    + exact (existsb_false_In _ _ E18 j Hj).
+    + specialize (Hp j Hj). apply negb_true_iff in Hp. exact Hp.
+  - apply andb_true_intro. split.
+    + rewrite forallb_forall in *. intros kv Hkv. apply NC.
+      * exact (existsb_false_In _ _ E18 kv Hkv).
+      * specialize (Hp kv Hkv). apply negb_true_iff in Hp. exact Hp.
+    + destruct (allow_key_edits o); simpl in *; auto.
+      pose proof (existsb_false_In _ _ H28 e He) as E28. simpl in E28. rewrite Ee in E28.
+      apply forallb_forall. intros kv Hkv. pose proof (existsb_false_In _ _ E28 kv Hkv) as E.
+      apply negb_false_iff in E. exact E.
+Qed.
+
+(* (a) the machine halts with a tree whose to_obj() is the plain value of the graph (LeafNode keys aside,
+   literally: same order; hence equal for the executable comparison same_value of holds_C18), whose copy is
+   itself, without placeholder.  Custom objects: with pydiff's builder (BasicBuilder raises on them).
+   Dictionary keys and set elements: scalars and (frozen)sets (key_positions: all but D18 / D28). *)
 Theorem acyclic_faithful : forall b o g,
-  hashable_positions g = true -> python_wf g = true -> has_objects g = false ->
+  key_positions o g = true -> python_wf_keys g = true -> (has_objects g = false \/ b = PyObjB) ->
   forall d root v, unfold d g root = Some v ->
   exists t n v',
     (forall fuel, n <= fuel -> run_builder b o g fuel root = Built t)
-    /\ to_obj t = ROk v' /\ norm v' = v /\ copy t = t /\ tree_pyeq (copy t) t = true
+    /\ to_obj t = ROk v' /\ norm v' = v /\ same_value v' v = true
+    /\ copy t = t /\ tree_pyeq (copy t) t = true
     /\ has_placeholder t = false.
 Proof.
   intros b o g Hh Hw Hn d root v H.
@@ -1095,18 +1828,37 @@ Proof.
   destruct Hg as [G1 [G2 [G3 [G4 _]]]].
   exists t, n, (tov t). repeat split; auto.
   - intros fuel Hle. eapply machine_refines; eauto. discriminate.
+  - apply same_value_of_norm. exact G2.
   - rewrite G3. apply tree_pyeq_refl. apply no_placeholder_cyc0. exact G4.
+Qed.
+
+(* the same statement with the classes of the open findings as the only carve-outs: every case outside the
+   classes of D18 and D28 that respects Python's own invariants is converted faithfully *)
+Corollary acyclic_faithful_outside_findings : forall c b,
+  python_hashable (c_graph c) = true -> python_wf_keys (c_graph c) = true ->
+  kf_unhashable_key c = false -> kf_container_key_sort c = false ->
+  (has_objects (c_graph c) = false \/ b = PyObjB) ->
+  forall d v, unfold d (c_graph c) (c_root c) = Some v ->
+  exists t n v',
+    (forall fuel, n <= fuel -> run_builder b (c_opts c) (c_graph c) fuel (c_root c) = Built t)
+    /\ to_obj t = ROk v' /\ same_value v' v = true
+    /\ copy t = t /\ tree_pyeq (copy t) t = true /\ has_placeholder t = false.
+Proof.
+  intros c b Hp Hw H18 H28 Hn d v H.
+  destruct (acyclic_faithful b (c_opts c) (c_graph c) (key_positions_boundary c Hp H18 H28) Hw Hn d _ v H)
+    as [t [n [v' [A1 [A2 [_ [A4 [A5 [A6 A7]]]]]]]]].
+  exists t, n, v'. auto 10.
 Qed.
 
 (* (b) sharing is never mistaken for a cycle: whatever the fuel, no cycle error and no placeholder *)
 Theorem shared_not_cycle : forall b o g,
-  hashable_positions g = true -> python_wf g = true -> has_objects g = false ->
+  key_positions o g = true -> python_wf_keys g = true -> (has_objects g = false \/ b = PyObjB) ->
   forall root, acyclic g root ->
   forall fuel, run_builder b o g fuel root <> Raised ECycle
                /\ (forall t, run_builder b o g fuel root = Built t -> has_placeholder t = false).
 Proof.
   intros b o g Hh Hw Hn root [d [v H]] fuel.
-  destruct (acyclic_faithful b o g Hh Hw Hn d root v H) as [t [n [v' [Hrun [_ [_ [_ [_ Hph]]]]]]]].
+  destruct (acyclic_faithful b o g Hh Hw Hn d root v H) as [t [n [v' [Hrun [_ [_ [_ [_ [_ Hph]]]]]]]]].
   assert (M : forall r, run_builder b o g fuel root = r -> r <> OutOfFuel -> r = Built t).
   { intros r Hr Hne. unfold run_builder in *.
     pose proof (run_mono b o g fuel _ r Hr Hne n) as Hm.
@@ -1116,10 +1868,13 @@ Proof.
   - intros t' E. specialize (M _ E ltac:(discriminate)). inversion M. subst. exact Hph.
 Qed.
 
-(* (c) a reachable cycle is always detected: cycle error, or a placeholder when cycles are ignored *)
+(* (c) a reachable cycle is always detected: cycle error, or a placeholder when cycles are ignored.
+   With pydiff's builder this includes cycles that run through custom objects only (n.me = n): the
+   all-grandchildren-are-leaves shortcut of build_tree asks the expander (is_leaf_item), for which an
+   instance of a class is not a leaf. *)
 Theorem cyclic_detected : forall b o g,
   check_cycles o = true ->
-  hashable_positions g = true -> python_wf g = true -> has_objects g = false -> closed g = true ->
+  hashable_positions g = true -> python_wf g = true -> (has_objects g = false \/ b = PyObjB) -> closed g = true ->
   forall root, lookup g root <> None -> reaches_cycle g root ->
   forall fuel, fuel_bound b o g root <= fuel ->
     (ignore_cycles o = false -> run_builder b o g fuel root = Raised ECycle)
@@ -1142,6 +1897,91 @@ Proof.
       * destruct (has_placeholder t) eqn:P; auto. exfalso. exact (Hnot t eq_refl P).
       * rewrite I3. apply tree_pyeq_refl. exact I4.
   - destruct Hinv as [-> Hi]. split; auto. intros Hi'. congruence.
+Qed.
+
+(* ------------------------------------------------------------------ the executable statement on the model's prediction *)
+
+Lemma tree_eqv_refl : forall t, tree_eqv t t = true.
+Proof.
+  induction t as [k s|d i|l IH|l IH|a kvs IH|a kvs IH|n m IHn IHm] using tree_ind'.
+  - simpl. rewrite scalar_eqb_refl. destruct k; reflexivity.
+  - simpl. rewrite Nat.eqb_refl, Z.eqb_refl. reflexivity.
+  - simpl. induction IH as [|x xs Hx HF IHl]; auto. rewrite Hx. simpl. auto.
+  - simpl. induction IH as [|x xs Hx HF IHl]; auto. simpl. rewrite Hx. auto.
+  - simpl. rewrite Bool.eqb_reflx. simpl. induction IH as [|[k v] xs [Hk Hv] HF IHl]; auto.
+    simpl in *. rewrite Hk, Hv. simpl. auto.
+  - simpl. rewrite Bool.eqb_reflx. simpl. induction IH as [|[k v] xs [Hk Hv] HF IHl]; auto.
+    simpl in *. rewrite Hk, Hv. simpl. auto.
+  - simpl. rewrite IHn, IHm. reflexivity.
+Qed.
+
+Definition objs_ok (ep : entry) (g : graph) : Prop := has_objects g = false \/ bkind_of ep = PyObjB.
+
+Lemma defined_objs_ok : forall ep g, ep <> EJson -> defined_on ep g = true -> objs_ok ep g.
+Proof.
+  intros [| |] g Hne H; [congruence| |]; unfold objs_ok; simpl in *.
+  - left. apply negb_true_iff. exact H.
+  - right. reflexivity.
+Qed.
+
+(* (a') with exactly the fuel the correspondence check gives the model (fuel_bound), for every option set *)
+Theorem acyclic_faithful_model : forall b o g,
+  key_positions o g = true -> python_wf_keys g = true -> (has_objects g = false \/ b = PyObjB) ->
+  forall d root v, unfold d g root = Some v ->
+  exists t v',
+    run_builder b o g (fuel_bound b o g root) root = Built t
+    /\ to_obj t = ROk v' /\ norm v' = v /\ same_value v' v = true
+    /\ copy t = t /\ tree_pyeq (copy t) t = true
+    /\ has_placeholder t = false.
+Proof.
+  intros b o g Hh Hw Hn d root v H.
+  pose proof (unfold_depth_complete g _ _ _ H) as Hd. unfold unfold_depth in Hd.
+  destruct (acyclic_builds b o g Hh Hw Hn _ root v Hd []) as [t [n [Hb Hg]]].
+  { intros j []. }
+  destruct Hg as [G1 [G2 [G3 [G4 _]]]].
+  exists t, (tov t). repeat split; auto.
+  - eapply run_at_fuel_bound; [|exact Hb|discriminate]. unfold big_depth. lia.
+  - apply same_value_of_norm. exact G2.
+  - rewrite G3. apply tree_pyeq_refl. apply no_placeholder_cyc0. exact G4.
+Qed.
+
+(* the executable statement of the property (BuilderSpec.fails_entry: what holds_C18 evaluates on the
+   implementation's output) has no violated clause on the model's own prediction, for the two builder entry
+   points, every acyclic input of the domain and every option set ... *)
+Theorem model_holds_acyclic : forall ep o g root,
+  ep <> EJson -> defined_on ep g = true ->
+  key_positions o g = true -> python_wf_keys g = true -> acyclic g root ->
+  fails_entry o g root ep (observe (model_run ep o g root)) = [].
+Proof.
+  intros ep o g root Hne Hdef Hh Hw [d [v H]].
+  pose proof (defined_objs_ok ep g Hne Hdef) as Hn.
+  destruct (acyclic_faithful_model (bkind_of ep) o g Hh Hw Hn d root v H)
+    as [t [v' [A1 [A2 [_ [A4 [A5 [A6 A7]]]]]]]].
+  assert (Hrun : model_run ep o g root = Built t) by (destruct ep; [congruence|exact A1|exact A1]).
+  rewrite Hrun. unfold fails_entry, observe. rewrite Hdef. simpl negb.
+  rewrite (unfold_depth_complete g _ _ _ H). rewrite A2, A7, A4. unfold copy_clauses.
+  rewrite A5 at 1. rewrite tree_eqv_refl, A6. reflexivity.
+Qed.
+
+(* ... and every input that reaches a cycle, when cycles are checked *)
+Theorem model_holds_cyclic : forall ep o g root,
+  ep <> EJson -> defined_on ep g = true -> check_cycles o = true ->
+  hashable_positions g = true -> python_wf g = true -> closed g = true ->
+  lookup g root <> None -> reaches_cycle g root ->
+  fails_entry o g root ep (observe (model_run ep o g root)) = [].
+Proof.
+  intros ep o g root Hne Hdef Hck Hh Hw Hc Hroot Hcyc.
+  pose proof (defined_objs_ok ep g Hne Hdef) as Hn.
+  destruct (cyclic_detected (bkind_of ep) o g Hck Hh Hw Hn Hc root Hroot Hcyc _ (le_n _)) as [C1 C2].
+  assert (Hnone : unfold (unfold_depth g) g root = None).
+  { destruct (unfold (unfold_depth g) g root) as [v|] eqn:E; auto.
+    exfalso. apply (acyclic_no_cycle g root); auto. exists (unfold_depth g), v. exact E. }
+  destruct ep; [congruence| |];
+    (unfold fails_entry; rewrite Hdef, Hnone, Hck; simpl negb; cbv iota;
+     destruct (ignore_cycles o) eqn:Hi;
+     [destruct (C2 eq_refl) as [t [R1 [R2 [R3 R4]]]]; unfold model_run; rewrite R1; unfold observe, copy_clauses;
+      rewrite R2; rewrite R3 at 1; rewrite tree_eqv_refl, R4; reflexivity
+     |unfold model_run; rewrite (C1 eq_refl); reflexivity]).
 Qed.
 
 (* BasicBuilder().build_tree and pydiff.build_tree are the same function on graphs without custom objects:
@@ -1183,7 +2023,314 @@ Section SameBuilders.
   Theorem builders_agree : forall fuel root,
     run_builder BasicB o g fuel root = run_builder PyObjB o g fuel root.
   Proof. intros fuel root. unfold run_builder. rewrite expand_same. apply run_same. Qed.
+
+  Lemma kids_same : forall rec rec' stack cs, (forall c, rec c = rec' c) ->
+    kids BasicB o g rec stack cs = kids PyObjB o g rec' stack cs.
+  Proof.
+    intros rec rec' stack cs H. induction cs as [|c cs IH]; simpl; auto.
+    rewrite flagged_same, IH, H. reflexivity.
+  Qed.
+
+  Lemma bigs_same : forall d anc it, bigs BasicB o g d anc it = bigs PyObjB o g d anc it.
+  Proof.
+    induction d as [|d IH]; intros anc it; simpl; auto.
+    rewrite expand_same. rewrite (kids_same _ (bigs PyObjB o g d (it :: anc))) by (intros; apply IH).
+    destruct (fst (kids PyObjB o g (bigs PyObjB o g d (it :: anc)) (it :: anc) (expand PyObjB g it))); auto.
+    rewrite build_same. reflexivity.
+  Qed.
+
+  Lemma fuel_bound_same : forall root, fuel_bound BasicB o g root = fuel_bound PyObjB o g root.
+  Proof. intros root. unfold fuel_bound. rewrite bigs_same. reflexivity. Qed.
 End SameBuilders.
+
+(* ================================================================== 9. json.build_tree builds the same tree *)
+
+(* the two loops of json.build_tree, the recursive calls abstracted *)
+Definition json_list_go (rec : Z -> outcome) : list Z -> list tree -> outcome :=
+  fix go (l : list Z) (acc : list tree) {struct l} : outcome :=
+    match l with
+    | [] => Built (TList (rev acc))
+    | c :: r => match rec c with
+                | Built t => go r (t :: acc)
+                | x => x
+                end
+    end.
+
+Definition json_dict_go (o : opts) (reck recv : Z -> outcome) : list (Z * Z) -> list (tree * tree) -> outcome :=
+  fix go (l : list (Z * Z)) (acc : list (tree * tree)) {struct l} : outcome :=
+    match l with
+    | [] => match make_dict false o (dict_of tree_pyeq (rev acc)) with
+            | BOk t => Built t | BErr e => Raised e end
+    | (k, v) :: r =>
+        match reck k with
+        | Built tk => match recv v with
+                      | Built tv => go r ((tk, tv) :: acc)
+                      | x => x
+                      end
+        | x => x
+        end
+    end.
+
+Lemma json_list_go_ok : forall rec l ts acc, Forall2 (fun c t => rec c = Built t) l ts ->
+  json_list_go rec l acc = Built (TList (rev acc ++ ts)).
+Proof.
+  intros rec. induction l as [|c l IH]; intros ts acc HF; inversion HF; subst; simpl.
+  - rewrite app_nil_r. reflexivity.
+  - rewrite H1. rewrite (IH _ _ H3). simpl. rewrite <- app_assoc. reflexivity.
+Qed.
+
+Lemma json_dict_go_ok : forall o reck recv kvs tks tvs acc,
+  Forall2 (fun c t => reck c = Built t) (map fst kvs) tks ->
+  Forall2 (fun c t => recv c = Built t) (map snd kvs) tvs ->
+  json_dict_go o reck recv kvs acc
+  = match make_dict false o (dict_of tree_pyeq (rev acc ++ combine tks tvs)) with
+    | BOk t => Built t | BErr e => Raised e end.
+Proof.
+  intros o reck recv. induction kvs as [|[k v] kvs IH]; intros tks tvs acc HK HV; simpl in HK, HV;
+    inversion HK; inversion HV; subst; simpl.
+  - rewrite app_nil_r. reflexivity.
+  - rewrite H1, H6. rewrite (IH _ _ _ H3 H8). simpl. rewrite <- app_assoc. reflexivity.
+Qed.
+
+Lemma dict_set_keys : forall {K V} (eqb : K -> K -> bool) k (v : V) l k',
+  In k' (map fst (dict_set eqb k v l)) -> k' = k \/ In k' (map fst l).
+Proof.
+  induction l as [|[k0 v0] l IH]; simpl; intros k' H.
+  - destruct H as [<-|[]]. auto.
+  - destruct (eqb k0 k); simpl in H.
+    + destruct H as [<-|H]; auto.
+    + destruct H as [<-|H]; auto. destruct (IH _ H); auto.
+Qed.
+
+Lemma dict_of_keys : forall {K V} (eqb : K -> K -> bool) (l : list (K * V)) k',
+  In k' (map fst (dict_of eqb l)) -> In k' (map fst l).
+Proof.
+  intros K V eqb l k'. unfold dict_of.
+  assert (G : forall (l acc : list (K * V)),
+            In k' (map fst (fold_left (fun acc kv => dict_set eqb (fst kv) (snd kv) acc) l acc)) ->
+            In k' (map fst acc) \/ In k' (map fst l)).
+  { clear l. induction l as [|[k v] l IH]; simpl; intros acc H; auto.
+    destruct (IH _ H) as [H1|H1]; auto.
+    destruct (dict_set_keys _ _ _ _ _ H1) as [->|H2]; auto. }
+  intros H. destruct (G l [] H) as [[]|H1]. exact H1.
+Qed.
+
+Lemma json_supported_no_objects : forall g, json_supported g = true -> has_objects g = false.
+Proof.
+  intros g H. unfold has_objects. apply existsb_false_forall. intros [i nd] Hin.
+  unfold json_supported in H. rewrite forallb_forall in H. specialize (H _ Hin). simpl in *.
+  destruct nd; try reflexivity. discriminate H.
+Qed.
+
+Lemma F2_impl : forall {A B} (R R' : A -> B -> Prop) l l',
+  (forall a c, R a c -> R' a c) -> Forall2 R l l' -> Forall2 R' l l'.
+Proof. induction 2; constructor; auto. Qed.
+
+Section JsonAgree.
+  Variable o : opts.
+  Variable g : graph.
+  Hypothesis Hjs : json_supported g = true.
+  Hypothesis Hnb : has_bytes g = false.
+
+  Notation bigs := (bigs BasicB o g).
+  Notation kids := (kids BasicB o g).
+  Notation flagged := (flagged BasicB o g).
+
+  Lemma json_build_list : forall d i l, lookup g i = Some (PList l) ->
+    json_build (S d) o g false i = json_list_go (json_build d o g false) l [].
+  Proof. intros d i l H. simpl. rewrite H. reflexivity. Qed.
+
+  Lemma json_build_tuple : forall d i l, lookup g i = Some (PTuple l) ->
+    json_build (S d) o g false i = json_list_go (json_build d o g false) l [].
+  Proof. intros d i l H. simpl. rewrite H. reflexivity. Qed.
+
+  Lemma json_build_dict : forall d i kvs, lookup g i = Some (PDict kvs) ->
+    json_build (S d) o g false i = json_dict_go o (json_build d o g true) (json_build d o g false) kvs [].
+  Proof. intros d i kvs H. simpl. rewrite H. reflexivity. Qed.
+
+  Lemma not_bytes : forall i s, lookup g i = Some (PScalar (SBytes s)) -> False.
+  Proof.
+    intros i s H. apply lookup_In in H. unfold has_bytes in Hnb.
+    assert (E : existsb (fun e => is_bytes_node (snd e)) g = true).
+    { apply existsb_exists. exists (i, PScalar (SBytes s)). auto. }
+    congruence.
+  Qed.
+
+  (* json.build_tree on a scalar: the same leaf as BasicBuilder's (bytes aside: D31); None is refused as a key *)
+  Lemma json_scalar : forall i s, lookup g i = Some (PScalar s) -> forall d,
+    json_build (S d) o g false i = Built (leaf_of s)
+    /\ (s <> SNone -> json_build (S d) o g true i = Built (leaf_of s)).
+  Proof.
+    intros i s H d. simpl. rewrite H. destruct s; try (split; [reflexivity|intros; reflexivity]).
+    - split; [reflexivity|congruence].
+    - exfalso. eapply not_bytes; eauto.
+  Qed.
+
+  Lemma kids_built : forall stack rec l ts,
+    Forall2 (fun j t => flagged (IId j) stack = false /\ exists n, rec (IId j) = (Built t, n)) l ts ->
+    exists n, kids rec stack (map IId l) = (inl ts, n).
+  Proof.
+    induction 1 as [|j t l ts [Hf [n1 Hr]] HF [n2 IH]]; simpl; eauto.
+    rewrite Hf, Hr, IH. simpl. eauto.
+  Qed.
+
+  Lemma js_dict_keys : forall i kvs, lookup g i = Some (PDict kvs) ->
+    forall k, In k (map fst kvs) -> exists s, lookup g k = Some (PScalar s) /\ s <> SNone.
+  Proof.
+    intros i kvs H k Hk. apply lookup_In in H. unfold json_supported in Hjs.
+    rewrite forallb_forall in Hjs. specialize (Hjs _ H). simpl in Hjs. rewrite forallb_forall in Hjs.
+    apply in_map_iff in Hk. destruct Hk as [[k' v] [<- Hin]]. specialize (Hjs _ Hin). simpl in *.
+    unfold node_of in Hjs. destruct (lookup g k') as [[s| | | | |]|]; simpl in Hjs; try discriminate.
+    exists s. split; auto. intros ->. discriminate.
+  Qed.
+
+  (* what the induction carries for child j *)
+  Definition jgood (d : nat) (stack : list item) (j : Z) (t : tree) : Prop :=
+    flagged (IId j) stack = false
+    /\ (exists n, bigs (S d) stack (IId j) = (Built t, n))
+    /\ json_build d o g false j = Built t
+    /\ (forall s, lookup g j = Some (PScalar s) ->
+          t = leaf_of s /\ (s <> SNone -> json_build d o g true j = Built t)).
+
+  Lemma json_agree_gen : forall d i v, unfold d g i = Some v -> forall anc,
+    (forall j, In (IId j) anc -> ~ reach g i j) ->
+    exists t n, bigs (S d) anc (IId i) = (Built t, n) /\ json_build d o g false i = Built t
+      /\ (forall s, lookup g i = Some (PScalar s) ->
+            t = leaf_of s /\ (s <> SNone -> json_build d o g true i = Built t)).
+  Proof.
+    induction d as [|d IH]; intros i v H anc Hanc; [discriminate|].
+    assert (CH : forall l vs, (forall j, In j l -> edge g i j) ->
+                 Forall2 (fun j v => unfold d g j = Some v) l vs ->
+                 exists ts, Forall2 (jgood d (IId i :: anc)) l ts).
+    { induction l as [|a l IHl]; intros vs He HF; inversion HF; subst.
+      - exists []. constructor.
+      - destruct (IHl l' (fun j Hj => He j (or_intror Hj)) H4) as [ts Hts].
+        assert (Hea : edge g i a) by (apply He; left; reflexivity).
+        destruct (IH a y H2 (IId i :: anc)) as [t [n [Hb [Hj Hs]]]].
+        { intros j [Hj|Hj] Hr.
+          - injection Hj as <-. exact (no_self_reach g _ _ _ _ H Hea Hr).
+          - apply (Hanc j Hj). eapply reach_step; eauto. }
+        exists (t :: ts). constructor; auto. unfold jgood. repeat split; eauto; try (apply Hs; auto).
+        unfold BuilderModel.flagged.
+        assert (E : existsb (fun a0 => item_is a0 (IId a)) (IId i :: anc) = false).
+        { simpl. apply orb_false_intro.
+          - apply Z.eqb_neq. intros Heq. rewrite Heq in *. exact (no_self_reach g _ _ _ _ H Hea (reach_refl _ _)).
+          - apply existsb_false_forall. intros [k|s] Hin; simpl; auto.
+            apply Z.eqb_neq. intros Heq. rewrite Heq in *. apply (Hanc a Hin). eapply reach_step; [exact Hea|apply reach_refl]. }
+        rewrite E. apply andb_false_r. }
+    assert (KB : forall l ts, Forall2 (jgood d (IId i :: anc)) l ts ->
+                 (exists n, kids (bigs (S d) (IId i :: anc)) (IId i :: anc) (map IId l) = (inl ts, n))
+                 /\ Forall2 (fun c t => json_build d o g false c = Built t) l ts).
+    { intros l ts HF. split.
+      - apply kids_built. eapply F2_impl; [|exact HF]. intros a t [J1 [J2 _]]. auto.
+      - eapply F2_impl; [|exact HF]. intros a t [_ [_ [J3 _]]]. auto. }
+    rewrite unfold_S in H. unfold unfold_step in H. destruct (lookup g i) as [nd|] eqn:Hl; [|discriminate].
+    destruct nd as [s|l|l|l|kvs|cls fs].
+    - (* scalar *)
+      exists (leaf_of s), 1. destruct (json_scalar _ _ Hl d) as [S1 S2]. split; [|split; auto].
+      + apply scalar_big. exact Hl.
+      + intros s' E. inversion E. subst. auto.
+    - (* list *)
+      destruct (map_opt (unfold d g) l) as [vs|] eqn:E; [|discriminate].
+      destruct (CH l vs) as [ts HB]; [intros j Hj; exists (PList l); auto|apply map_opt_Forall2; auto|].
+      destruct (KB _ _ HB) as [[n Hk] HJ].
+      exists (TList ts), (S n). split; [|split].
+      + apply bigs_built with (ts := ts); unfold expand, build; rewrite Hl; auto.
+      + rewrite (json_build_list _ _ _ Hl). rewrite (json_list_go_ok _ _ _ _ HJ). reflexivity.
+      + intros s E0. discriminate.
+    - (* tuple *)
+      destruct (map_opt (unfold d g) l) as [vs|] eqn:E; [|discriminate].
+      destruct (CH l vs) as [ts HB]; [intros j Hj; exists (PTuple l); auto|apply map_opt_Forall2; auto|].
+      destruct (KB _ _ HB) as [[n Hk] HJ].
+      exists (TList ts), (S n). split; [|split].
+      + apply bigs_built with (ts := ts); unfold expand, build; rewrite Hl; auto.
+      + rewrite (json_build_tuple _ _ _ Hl). rewrite (json_list_go_ok _ _ _ _ HJ). reflexivity.
+      + intros s E0. discriminate.
+    - (* set: outside json.build_tree's domain *)
+      exfalso. apply lookup_In in Hl. unfold json_supported in Hjs. rewrite forallb_forall in Hjs.
+      specialize (Hjs _ Hl). discriminate.
+    - (* dict *)
+      match type of H with option_map _ (map_opt ?f kvs) = _ => destruct (map_opt f kvs) as [ps|] eqn:E end;
+        [|discriminate].
+      destruct (dict_unfold_split g _ _ _ E) as [FK FV].
+      destruct (CH (map fst kvs) (map fst ps)) as [tks HK];
+        [intros j Hj; exists (PDict kvs); split; auto; simpl; apply in_or_app; auto|auto|].
+      destruct (CH (map snd kvs) (map snd ps)) as [tvs HV];
+        [intros j Hj; exists (PDict kvs); split; auto; simpl; apply in_or_app; auto|auto|].
+      destruct (KB _ _ (Forall2_app HK HV)) as [[n Hk] _]. rewrite map_app in Hk.
+      destruct (KB _ _ HV) as [_ HJV].
+      (* the keys: leaves, and json's forced-leaf call builds the same leaf *)
+      assert (HJK : Forall2 (fun c t => json_build d o g true c = Built t) (map fst kvs) tks
+                    /\ forallb is_leaf_tree tks = true).
+      { pose proof (js_dict_keys _ _ Hl) as Hs. clear -HK Hs.
+        induction HK as [|k t ks ts Hk HF IHF]; [split; [constructor|reflexivity]|].
+        destruct (Hs k (or_introl eq_refl)) as [s [Hls Hne]].
+        destruct Hk as [_ [_ [_ Hsc]]]. destruct (Hsc _ Hls) as [-> Hj].
+        destruct IHF as [I1 I2]; [intros; apply Hs; right; auto|]. split; [constructor; auto|].
+        simpl. exact I2. }
+      destruct HJK as [HJK Hleaf].
+      assert (Hlk : length tks = length kvs) by (apply F2_length in HK; rewrite map_length in HK; auto).
+      assert (Hlv : length tvs = length kvs) by (apply F2_length in HV; rewrite map_length in HV; auto).
+      assert (Hitems : combine (firstn (Nat.div2 (length (tks ++ tvs))) (tks ++ tvs))
+                               (skipn (Nat.div2 (length (tks ++ tvs))) (tks ++ tvs))
+                       = combine tks tvs).
+      { rewrite div2_len_app by lia. rewrite firstn_len_app, skipn_len_app. reflexivity. }
+      assert (Hsr : sort_raises (dict_of tree_pyeq (combine tks tvs)) = false).
+      { apply sort_raises_leaf_keys. intros kv Hin.
+        assert (Hk' : In (fst kv) (map fst (combine tks tvs))).
+        { apply dict_of_keys with (eqb := tree_pyeq). apply in_map. exact Hin. }
+        rewrite map_fst_combine in Hk' by lia. rewrite forallb_forall in Hleaf. auto. }
+      destruct (make_dict false o (dict_of tree_pyeq (combine tks tvs))) as [t|e] eqn:Hmd.
+      2: { exfalso. unfold make_dict in Hmd. rewrite Hsr in Hmd. destruct (allow_key_edits o); discriminate. }
+      exists t, (S n). split; [|split].
+      + apply bigs_built with (ts := tks ++ tvs); [unfold expand; rewrite Hl; exact Hk|].
+        unfold build. rewrite Hl. rewrite Hitems. exact Hmd.
+      + rewrite (json_build_dict _ _ _ Hl). rewrite (json_dict_go_ok _ _ _ _ _ _ _ HJK HJV). simpl.
+        rewrite Hmd. reflexivity.
+      + intros s E'. discriminate.
+    - (* instance of a class: outside json.build_tree's domain *)
+      exfalso. apply lookup_In in Hl. unfold json_supported in Hjs. rewrite forallb_forall in Hjs.
+      specialize (Hjs _ Hl). discriminate.
+  Qed.
+
+End JsonAgree.
+
+(* on the domain where json.build_tree is defined and no open finding applies (json_supported: no sets, no
+   instances of classes, dictionary keys are int/float/bool/str; no bytes - D31; acyclic - D32), all three
+   entry points return the same tree, under every option set: json_run = run_builder for every builder *)
+(* the same for the function the correspondence check evaluates (model_run: the builders with fuel_bound) *)
+Theorem entry_points_model : forall o g,
+  json_supported g = true -> has_bytes g = false ->
+  forall root, acyclic g root ->
+  exists t, forall ep, model_run ep o g root = Built t.
+Proof.
+  intros o g Hjs Hnb root [d [v H]].
+  pose proof (unfold_depth_complete g _ _ _ H) as Hd. unfold unfold_depth in Hd.
+  destruct (json_agree_gen o g Hjs Hnb _ _ _ Hd []) as [t [n [Hb [Hj _]]]]; [intros j []|].
+  assert (HB : run_builder BasicB o g (fuel_bound BasicB o g root) root = Built t).
+  { eapply run_at_fuel_bound; [|exact Hb|discriminate]. unfold big_depth. lia. }
+  exists t. intros [| |]; simpl.
+  - unfold json_run. rewrite Hj. reflexivity.
+  - exact HB.
+  - pose proof (json_supported_no_objects g Hjs) as Hno.
+    rewrite <- (fuel_bound_same o g Hno), <- (builders_agree o g Hno). exact HB.
+Qed.
+
+Theorem entry_points_agree : forall o g,
+  json_supported g = true -> has_bytes g = false ->
+  forall root, acyclic g root ->
+  exists t n, json_run o g root = Built t
+    /\ forall b fuel, n <= fuel -> run_builder b o g fuel root = json_run o g root.
+Proof.
+  intros o g Hjs Hnb root [d [v H]].
+  pose proof (unfold_depth_complete g _ _ _ H) as Hd. unfold unfold_depth in Hd.
+  destruct (json_agree_gen o g Hjs Hnb _ _ _ Hd []) as [t [n [Hb [Hj _]]]]; [intros j []|].
+  assert (Hrun : json_run o g root = Built t) by (unfold json_run; rewrite Hj; reflexivity).
+  exists t, n. split; auto. intros b fuel Hle. rewrite Hrun.
+  assert (HB : run_builder BasicB o g fuel root = Built t).
+  { eapply machine_refines; eauto. discriminate. }
+  destruct b; auto. rewrite <- builders_agree; auto. apply json_supported_no_objects. exact Hjs.
+Qed.
 
 (* ------------------------------------------------------------------ the hypotheses are satisfiable *)
 
@@ -1200,6 +2347,7 @@ Definition g_shared : graph :=
 
 Example shared_example :
   hashable_positions g_shared = true /\ python_wf g_shared = true /\ has_objects g_shared = false
+  /\ key_positions o_default g_shared = true /\ python_wf_keys g_shared = true
   /\ acyclic g_shared 0
   /\ (edge g_shared 0 1 /\ edge g_shared 2 1 /\ edge g_shared 5 1)          (* sharing *)
   /\ exists t, run_builder BasicB o_default g_shared (fuel_bound BasicB o_default g_shared 0) 0 = Built t
@@ -1236,6 +2384,78 @@ Proof.
   - eexists. split; vm_compute; reflexivity.
 Qed.
 
+(* cycles that run through instances of classes only (pydiff entry point): p = P(); q = Q(); p.nxt = q;
+   p.val = 1; q.nxt = p; root = [p]  -  and the self reference n = P(); n.me = n; n.x = 1.  Every node on
+   the cycle has only scalars and instances as attribute values: the case in which the
+   all-grandchildren-are-leaves shortcut must ask the expander. *)
+Definition g_obj_ring : graph :=
+  [(0, PList [1]); (1, PObj "P" [("nxt", 2); ("val", 3)]); (2, PObj "Q" [("nxt", 1)]); (3, PScalar (SInt 1))].
+Definition g_obj_self : graph := [(0, PObj "P" [("me", 0); ("x", 1)]); (1, PScalar (SInt 1))].
+
+Example obj_cycle_example :
+  hashable_positions g_obj_ring = true /\ python_wf g_obj_ring = true /\ has_objects g_obj_ring = true
+  /\ closed g_obj_ring = true /\ lookup g_obj_ring 0 <> None /\ reaches_cycle g_obj_ring 0
+  /\ run_builder PyObjB o_default g_obj_ring (fuel_bound PyObjB o_default g_obj_ring 0) 0 = Raised ECycle
+  /\ (exists t, run_builder PyObjB o_ignore g_obj_ring (fuel_bound PyObjB o_ignore g_obj_ring 0) 0 = Built t
+                /\ has_placeholder t = true)
+  /\ hashable_positions g_obj_self = true /\ python_wf g_obj_self = true /\ closed g_obj_self = true
+  /\ reaches_cycle g_obj_self 0
+  /\ run_builder PyObjB o_default g_obj_self (fuel_bound PyObjB o_default g_obj_self 0) 0 = Raised ECycle
+  /\ (exists t, run_builder PyObjB o_ignore g_obj_self (fuel_bound PyObjB o_ignore g_obj_self 0) 0 = Built t
+                /\ has_placeholder t = true).
+Proof.
+  repeat split; try reflexivity.
+  - discriminate.
+  - exists 1, 2. repeat split.
+    + eapply reach_step; [eexists; split; [reflexivity|simpl; auto]|]. apply reach_refl.
+    + eexists; split; [reflexivity|simpl; auto].
+    + eapply reach_step; [eexists; split; [reflexivity|simpl; auto]|]. apply reach_refl.
+  - eexists. split; vm_compute; reflexivity.
+  - exists 0, 0. repeat split.
+    + apply reach_refl.
+    + eexists; split; [reflexivity|simpl; auto].
+    + apply reach_refl.
+  - eexists. split; vm_compute; reflexivity.
+Qed.
+
+(* an acyclic graph with a shared instance: p = P(); p.a = 1; p.b = [1, 1]; root = [p, p, Q(c = p)] *)
+Definition g_obj_shared : graph :=
+  [(0, PList [1; 1; 4]); (1, PObj "P" [("a", 2); ("b", 3)]); (2, PScalar (SInt 1)); (3, PList [2; 2]);
+   (4, PObj "Q" [("c", 1)])].
+
+Example acyclic_obj_example :
+  key_positions o_default g_obj_shared = true /\ python_wf_keys g_obj_shared = true /\ has_objects g_obj_shared = true
+  /\ acyclic g_obj_shared 0 /\ (edge g_obj_shared 0 1 /\ edge g_obj_shared 4 1)
+  /\ exists t v, run_builder PyObjB o_default g_obj_shared (fuel_bound PyObjB o_default g_obj_shared 0) 0 = Built t
+               /\ has_placeholder t = false /\ to_obj t = ROk v
+               /\ unfold 5 g_obj_shared 0 = Some (norm v).
+Proof.
+  repeat split; try reflexivity.
+  - exists 5%nat. eexists. vm_compute. reflexivity.
+  - eexists; split; [reflexivity|simpl; auto].
+  - eexists; split; [reflexivity|simpl; auto].
+  - eexists. eexists. repeat split; vm_compute; reflexivity.
+Qed.
+
+(* frozensets as dictionary keys: {frozenset({1, 2}): 3, "a": frozenset()} - inside key_positions for every
+   strategy (the only non-leaf key is the first one), outside the scalar-keys domain *)
+Definition g_fset_key : graph :=
+  [(0, PDict [(1, 4); (5, 6)]); (1, PSet [2; 3]); (2, PScalar (SInt 1)); (3, PScalar (SInt 2));
+   (4, PScalar (SInt 3)); (5, PScalar (SStr "a")); (6, PSet [])].
+
+Example fset_key_example :
+  key_positions o_default g_fset_key = true /\ key_positions o_ignore g_fset_key = true
+  /\ python_wf_keys g_fset_key = true /\ hashable_positions g_fset_key = false /\ acyclic g_fset_key 0
+  /\ exists t v, run_builder BasicB o_default g_fset_key (fuel_bound BasicB o_default g_fset_key 0) 0 = Built t
+       /\ to_obj t = ROk v
+       /\ v = VDict [(VMSet [VScalar (SInt 1); VScalar (SInt 2)], VScalar (SInt 3)); (VScalar (SStr "a"), VMSet [])]
+       /\ unfold 3 g_fset_key 0 = Some v.
+Proof.
+  repeat split; try reflexivity.
+  - exists 3%nat. eexists. vm_compute. reflexivity.
+  - eexists. eexists. repeat split; vm_compute; reflexivity.
+Qed.
+
 (* the fuel bound is a concrete number of steps: 2 * (items of the unfolding) - 1 *)
 Example fuel_bound_example : fuel_bound BasicB o_default g_shared 0 = 45%nat.
 Proof. vm_compute. reflexivity. Qed.
@@ -1249,6 +2469,8 @@ Definition g_tuple_key : graph :=
 Theorem acyclic_refuted_tuple_key :
   python_wf g_tuple_key = true /\ has_objects g_tuple_key = false /\ acyclic g_tuple_key 0
   /\ hashable_positions g_tuple_key = false
+  /\ python_wf_keys g_tuple_key = true /\ python_hashable g_tuple_key = true
+  /\ key_positions o_default g_tuple_key = false /\ key_positions o_ignore g_tuple_key = false
   /\ exists t, run_builder BasicB o_default g_tuple_key (fuel_bound BasicB o_default g_tuple_key 0) 0 = Built t
                /\ to_obj t = RErr "TypeError".
 Proof.
@@ -1264,9 +2486,16 @@ Definition g_set_keys : graph :=
 
 Theorem acyclic_refuted_container_keys :
   acyclic g_set_keys 0 /\ hashable_positions g_set_keys = false
-  /\ run_builder BasicB o_default g_set_keys (fuel_bound BasicB o_default g_set_keys 0) 0 = Raised ETypeError.
+  /\ python_wf_keys g_set_keys = true /\ python_hashable g_set_keys = true
+  /\ key_positions o_default g_set_keys = false
+  /\ run_builder BasicB o_default g_set_keys (fuel_bound BasicB o_default g_set_keys 0) 0 = Raised ETypeError
+  (* the same graph under the strategy that does not sort (allow_key_edits off) is inside the domain *)
+  /\ key_positions o_ignore g_set_keys = true
+  /\ exists t, run_builder BasicB o_ignore g_set_keys (fuel_bound BasicB o_ignore g_set_keys 0) 0 = Built t.
 Proof.
-  repeat split; try reflexivity. exists 3%nat. eexists. vm_compute. reflexivity.
+  repeat split; try reflexivity.
+  - exists 3%nat. eexists. vm_compute. reflexivity.
+  - eexists. vm_compute. reflexivity.
 Qed.
 
 (* formerly D29 (PyObj had no __eq__) and D30 (the copy of a placeholder was wrapped once more): repaired in
@@ -1314,10 +2543,19 @@ Example entry_points_example :
     /\ run_builder PyObjB o_default g_json_shared (fuel_bound PyObjB o_default g_json_shared 0) 0 = Built t.
 Proof. split; [reflexivity|]. eexists. repeat split; vm_compute; reflexivity. Qed.
 
+Example entry_points_domain_example :
+  json_supported g_json_shared = true /\ has_bytes g_json_shared = false /\ acyclic g_json_shared 0.
+Proof. repeat split; try reflexivity. exists 4%nat. eexists. vm_compute. reflexivity. Qed.
+
 (* the executable statement holds on the model's own prediction for these graphs *)
 Example holds_on_model :
   holds_C18 (model_case o_default g_shared 0 [EBasic; EPyObj]) = true
   /\ holds_C18 (model_case o_default g_json_shared 0 [EJson; EBasic; EPyObj]) = true
   /\ holds_C18 (model_case o_default g_mutual 0 [EBasic; EPyObj]) = true
+  /\ holds_C18 (model_case o_default g_obj_ring 0 [EBasic; EPyObj]) = true
+  /\ holds_C18 (model_case o_ignore g_obj_self 0 [EBasic; EPyObj]) = true
+  /\ holds_C18 (model_case o_default g_obj_shared 0 [EBasic; EPyObj]) = true
+  /\ holds_C18 (model_case o_default g_fset_key 0 [EBasic; EPyObj]) = true
+  /\ holds_C18 (model_case o_ignore g_set_keys 0 [EBasic; EPyObj]) = true
   /\ fails_C18 (model_case o_default g_tuple_key 0 [EBasic]) = [(Some EBasic, ClValue)].
 Proof. repeat split; vm_compute; reflexivity. Qed.
